@@ -28,267 +28,266 @@ variable {K : Type} [Field K] [LinearOrder K]
 
 
 set_option maxHeartbeats 4000000 in
-/-- `grad_milstein_i_diagonal_11_gf`: backprop `gy_0_0` = forward derivative `ty_0_0` -/
-theorem grad_milstein_i_diagonal_11_gf_gy_0_0 (sqrt : K → K) (f : K → K → K → K) (f_d1 : K → K → K → K) (f_d2 : K → K → K → K) (g : K → K → K → K) (g_d1 : K → K → K → K) (g_d2 : K → K → K → K) (t0 t2 dt y0_0_0 theta v_0_0 dW0_0_0 dW1_0_0 : K) :
-    Gen.grad_milstein_i_diagonal_11_gf_gy_0_0 sqrt f f_d1 f_d2 g g_d1 g_d2 t0 t2 dt y0_0_0 theta v_0_0 dW0_0_0 dW1_0_0 = Gen.grad_milstein_i_diagonal_11_gf_ty_0_0 sqrt f f_d1 f_d2 g g_d1 g_d2 t0 t2 dt y0_0_0 theta v_0_0 dW0_0_0 dW1_0_0 := by
-  simp only [Gen.grad_milstein_i_diagonal_11_gf_gy_0_0, Gen.grad_milstein_i_diagonal_11_gf_ty_0_0]
-  generalize Gen.grad_milstein_i_diagonal_11_gf_f_d1_0d13626a177a sqrt f f_d1 f_d2 g g_d1 g_d2 t0 t2 dt y0_0_0 theta v_0_0 dW0_0_0 dW1_0_0 = a0
-  generalize Gen.grad_milstein_i_diagonal_11_gf_f_d1_b39c2b677c13 sqrt f f_d1 f_d2 g g_d1 g_d2 t0 t2 dt y0_0_0 theta v_0_0 dW0_0_0 dW1_0_0 = a1
-  generalize Gen.grad_milstein_i_diagonal_11_gf_g_d1_02b813f80bf9 sqrt f f_d1 f_d2 g g_d1 g_d2 t0 t2 dt y0_0_0 theta v_0_0 dW0_0_0 dW1_0_0 = a2
-  generalize Gen.grad_milstein_i_diagonal_11_gf_g_d1_ddd0c5e556e2 sqrt f f_d1 f_d2 g g_d1 g_d2 t0 t2 dt y0_0_0 theta v_0_0 dW0_0_0 dW1_0_0 = a3
-  generalize Gen.grad_milstein_i_diagonal_11_gf_g_d1_fcbd887f1bc8 sqrt f f_d1 f_d2 g g_d1 g_d2 t0 t2 dt y0_0_0 theta v_0_0 dW0_0_0 dW1_0_0 = a4
-  generalize Gen.grad_milstein_i_diagonal_11_gf_g_d1_fe90e523b752 sqrt f f_d1 f_d2 g g_d1 g_d2 t0 t2 dt y0_0_0 theta v_0_0 dW0_0_0 dW1_0_0 = a5
+/-- `gradp_euler_i_scalar_11`: backprop `gth` = forward derivative `tth` -/
+theorem gradp_euler_i_scalar_11_gth  (f : K → K → K → K) (f_d1 : K → K → K → K) (f_d2 : K → K → K → K) (g : K → K → K → K) (g_d1 : K → K → K → K) (g_d2 : K → K → K → K) (t0 t2 dt y0_0_0 theta v_0_0 dW0_0_0 dW1_0_0 : K) :
+    Gen.gradp_euler_i_scalar_11_gth f f_d1 f_d2 g g_d1 g_d2 t0 t2 dt y0_0_0 theta v_0_0 dW0_0_0 dW1_0_0 = Gen.gradp_euler_i_scalar_11_tth f f_d1 f_d2 g g_d1 g_d2 t0 t2 dt y0_0_0 theta v_0_0 dW0_0_0 dW1_0_0 := by
+  simp only [Gen.gradp_euler_i_scalar_11_gth, Gen.gradp_euler_i_scalar_11_tth]
+  generalize Gen.gradp_euler_i_scalar_11_f_d1_c5cd2284f49d f f_d1 f_d2 g g_d1 g_d2 t0 t2 dt y0_0_0 theta v_0_0 dW0_0_0 dW1_0_0 = a0
+  generalize Gen.gradp_euler_i_scalar_11_f_d2_75ad011491cf f f_d1 f_d2 g g_d1 g_d2 t0 t2 dt y0_0_0 theta v_0_0 dW0_0_0 dW1_0_0 = a1
+  generalize Gen.gradp_euler_i_scalar_11_f_d2_f2902e1bab85 f f_d1 f_d2 g g_d1 g_d2 t0 t2 dt y0_0_0 theta v_0_0 dW0_0_0 dW1_0_0 = a2
+  generalize Gen.gradp_euler_i_scalar_11_g_d1_a2931f36efaa f f_d1 f_d2 g g_d1 g_d2 t0 t2 dt y0_0_0 theta v_0_0 dW0_0_0 dW1_0_0 = a3
+  generalize Gen.gradp_euler_i_scalar_11_g_d2_722b7a6bbfae f f_d1 f_d2 g g_d1 g_d2 t0 t2 dt y0_0_0 theta v_0_0 dW0_0_0 dW1_0_0 = a4
+  generalize Gen.gradp_euler_i_scalar_11_g_d2_b2655ef31e85 f f_d1 f_d2 g g_d1 g_d2 t0 t2 dt y0_0_0 theta v_0_0 dW0_0_0 dW1_0_0 = a5
   ring
 
 set_option maxHeartbeats 4000000 in
-/-- `grad_milstein_i_diagonal_11_gf`: backprop `gth` = forward derivative `tth` -/
-theorem grad_milstein_i_diagonal_11_gf_gth (sqrt : K → K) (f : K → K → K → K) (f_d1 : K → K → K → K) (f_d2 : K → K → K → K) (g : K → K → K → K) (g_d1 : K → K → K → K) (g_d2 : K → K → K → K) (t0 t2 dt y0_0_0 theta v_0_0 dW0_0_0 dW1_0_0 : K) :
-    Gen.grad_milstein_i_diagonal_11_gf_gth sqrt f f_d1 f_d2 g g_d1 g_d2 t0 t2 dt y0_0_0 theta v_0_0 dW0_0_0 dW1_0_0 = Gen.grad_milstein_i_diagonal_11_gf_tth sqrt f f_d1 f_d2 g g_d1 g_d2 t0 t2 dt y0_0_0 theta v_0_0 dW0_0_0 dW1_0_0 := by
-  simp only [Gen.grad_milstein_i_diagonal_11_gf_gth, Gen.grad_milstein_i_diagonal_11_gf_tth]
-  generalize Gen.grad_milstein_i_diagonal_11_gf_f_d1_0d13626a177a sqrt f f_d1 f_d2 g g_d1 g_d2 t0 t2 dt y0_0_0 theta v_0_0 dW0_0_0 dW1_0_0 = a0
-  generalize Gen.grad_milstein_i_diagonal_11_gf_f_d2_75ad011491cf sqrt f f_d1 f_d2 g g_d1 g_d2 t0 t2 dt y0_0_0 theta v_0_0 dW0_0_0 dW1_0_0 = a1
-  generalize Gen.grad_milstein_i_diagonal_11_gf_f_d2_8f01485f34bd sqrt f f_d1 f_d2 g g_d1 g_d2 t0 t2 dt y0_0_0 theta v_0_0 dW0_0_0 dW1_0_0 = a2
-  generalize Gen.grad_milstein_i_diagonal_11_gf_g_d1_02b813f80bf9 sqrt f f_d1 f_d2 g g_d1 g_d2 t0 t2 dt y0_0_0 theta v_0_0 dW0_0_0 dW1_0_0 = a3
-  generalize Gen.grad_milstein_i_diagonal_11_gf_g_d1_fcbd887f1bc8 sqrt f f_d1 f_d2 g g_d1 g_d2 t0 t2 dt y0_0_0 theta v_0_0 dW0_0_0 dW1_0_0 = a4
-  generalize Gen.grad_milstein_i_diagonal_11_gf_g_d1_fe90e523b752 sqrt f f_d1 f_d2 g g_d1 g_d2 t0 t2 dt y0_0_0 theta v_0_0 dW0_0_0 dW1_0_0 = a5
-  generalize Gen.grad_milstein_i_diagonal_11_gf_g_d2_30df7870a577 sqrt f f_d1 f_d2 g g_d1 g_d2 t0 t2 dt y0_0_0 theta v_0_0 dW0_0_0 dW1_0_0 = a6
-  generalize Gen.grad_milstein_i_diagonal_11_gf_g_d2_5f1ed0e1d509 sqrt f f_d1 f_d2 g g_d1 g_d2 t0 t2 dt y0_0_0 theta v_0_0 dW0_0_0 dW1_0_0 = a7
-  generalize Gen.grad_milstein_i_diagonal_11_gf_g_d2_722b7a6bbfae sqrt f f_d1 f_d2 g g_d1 g_d2 t0 t2 dt y0_0_0 theta v_0_0 dW0_0_0 dW1_0_0 = a8
-  generalize Gen.grad_milstein_i_diagonal_11_gf_g_d2_9c51f97a67da sqrt f f_d1 f_d2 g g_d1 g_d2 t0 t2 dt y0_0_0 theta v_0_0 dW0_0_0 dW1_0_0 = a9
+/-- `grad_milstein_i_additive_11`: backprop `gth` = forward derivative `tth` -/
+theorem grad_milstein_i_additive_11_gth  (f : K → K → K → K) (f_d1 : K → K → K → K) (f_d2 : K → K → K → K) (g : K → K → K) (g_d1 : K → K → K) (t0 t2 dt y0_0_0 theta v_0_0 dW0_0_0 dW1_0_0 : K) :
+    Gen.grad_milstein_i_additive_11_gth f f_d1 f_d2 g g_d1 t0 t2 dt y0_0_0 theta v_0_0 dW0_0_0 dW1_0_0 = Gen.grad_milstein_i_additive_11_tth f f_d1 f_d2 g g_d1 t0 t2 dt y0_0_0 theta v_0_0 dW0_0_0 dW1_0_0 := by
+  simp only [Gen.grad_milstein_i_additive_11_gth, Gen.grad_milstein_i_additive_11_tth]
+  generalize Gen.grad_milstein_i_additive_11_f_d1_d092e7b2f9b4 f f_d1 f_d2 g g_d1 t0 t2 dt y0_0_0 theta v_0_0 dW0_0_0 dW1_0_0 = a0
+  generalize Gen.grad_milstein_i_additive_11_f_d2_68c7ff182560 f f_d1 f_d2 g g_d1 t0 t2 dt y0_0_0 theta v_0_0 dW0_0_0 dW1_0_0 = a1
+  generalize Gen.grad_milstein_i_additive_11_f_d2_75ad011491cf f f_d1 f_d2 g g_d1 t0 t2 dt y0_0_0 theta v_0_0 dW0_0_0 dW1_0_0 = a2
+  generalize Gen.grad_milstein_i_additive_11_g_d1_39aaf857762f f f_d1 f_d2 g g_d1 t0 t2 dt y0_0_0 theta v_0_0 dW0_0_0 dW1_0_0 = a3
+  generalize Gen.grad_milstein_i_additive_11_g_d1_3d49352567ba f f_d1 f_d2 g g_d1 t0 t2 dt y0_0_0 theta v_0_0 dW0_0_0 dW1_0_0 = a4
   ring
 
 set_option maxHeartbeats 4000000 in
-/-- `grad_milstein_s_additive_11`: backprop `gy_0_0` = forward derivative `ty_0_0` -/
-theorem grad_milstein_s_additive_11_gy_0_0  (f : K → K → K → K) (f_d1 : K → K → K → K) (f_d2 : K → K → K → K) (g : K → K → K) (g_d1 : K → K → K) (t0 t2 dt y0_0_0 theta v_0_0 dW0_0_0 dW1_0_0 : K) :
-    Gen.grad_milstein_s_additive_11_gy_0_0 f f_d1 f_d2 g g_d1 t0 t2 dt y0_0_0 theta v_0_0 dW0_0_0 dW1_0_0 = Gen.grad_milstein_s_additive_11_ty_0_0 f f_d1 f_d2 g g_d1 t0 t2 dt y0_0_0 theta v_0_0 dW0_0_0 dW1_0_0 := by
-  simp only [Gen.grad_milstein_s_additive_11_gy_0_0, Gen.grad_milstein_s_additive_11_ty_0_0]
-  generalize Gen.grad_milstein_s_additive_11_f_d1_b39c2b677c13 f f_d1 f_d2 g g_d1 t0 t2 dt y0_0_0 theta v_0_0 dW0_0_0 dW1_0_0 = a0
-  generalize Gen.grad_milstein_s_additive_11_f_d1_d092e7b2f9b4 f f_d1 f_d2 g g_d1 t0 t2 dt y0_0_0 theta v_0_0 dW0_0_0 dW1_0_0 = a1
+/-- `grad_milstein_i_additive_11`: backprop `gy_0_0` = forward derivative `ty_0_0` -/
+theorem grad_milstein_i_additive_11_gy_0_0  (f : K → K → K → K) (f_d1 : K → K → K → K) (f_d2 : K → K → K → K) (g : K → K → K) (g_d1 : K → K → K) (t0 t2 dt y0_0_0 theta v_0_0 dW0_0_0 dW1_0_0 : K) :
+    Gen.grad_milstein_i_additive_11_gy_0_0 f f_d1 f_d2 g g_d1 t0 t2 dt y0_0_0 theta v_0_0 dW0_0_0 dW1_0_0 = Gen.grad_milstein_i_additive_11_ty_0_0 f f_d1 f_d2 g g_d1 t0 t2 dt y0_0_0 theta v_0_0 dW0_0_0 dW1_0_0 := by
+  simp only [Gen.grad_milstein_i_additive_11_gy_0_0, Gen.grad_milstein_i_additive_11_ty_0_0]
+  generalize Gen.grad_milstein_i_additive_11_f_d1_b39c2b677c13 f f_d1 f_d2 g g_d1 t0 t2 dt y0_0_0 theta v_0_0 dW0_0_0 dW1_0_0 = a0
+  generalize Gen.grad_milstein_i_additive_11_f_d1_d092e7b2f9b4 f f_d1 f_d2 g g_d1 t0 t2 dt y0_0_0 theta v_0_0 dW0_0_0 dW1_0_0 = a1
   ring
 
 set_option maxHeartbeats 4000000 in
-/-- `grad_milstein_s_additive_11`: backprop `gth` = forward derivative `tth` -/
-theorem grad_milstein_s_additive_11_gth  (f : K → K → K → K) (f_d1 : K → K → K → K) (f_d2 : K → K → K → K) (g : K → K → K) (g_d1 : K → K → K) (t0 t2 dt y0_0_0 theta v_0_0 dW0_0_0 dW1_0_0 : K) :
-    Gen.grad_milstein_s_additive_11_gth f f_d1 f_d2 g g_d1 t0 t2 dt y0_0_0 theta v_0_0 dW0_0_0 dW1_0_0 = Gen.grad_milstein_s_additive_11_tth f f_d1 f_d2 g g_d1 t0 t2 dt y0_0_0 theta v_0_0 dW0_0_0 dW1_0_0 := by
-  simp only [Gen.grad_milstein_s_additive_11_gth, Gen.grad_milstein_s_additive_11_tth]
-  generalize Gen.grad_milstein_s_additive_11_f_d1_d092e7b2f9b4 f f_d1 f_d2 g g_d1 t0 t2 dt y0_0_0 theta v_0_0 dW0_0_0 dW1_0_0 = a0
-  generalize Gen.grad_milstein_s_additive_11_f_d2_68c7ff182560 f f_d1 f_d2 g g_d1 t0 t2 dt y0_0_0 theta v_0_0 dW0_0_0 dW1_0_0 = a1
-  generalize Gen.grad_milstein_s_additive_11_f_d2_75ad011491cf f f_d1 f_d2 g g_d1 t0 t2 dt y0_0_0 theta v_0_0 dW0_0_0 dW1_0_0 = a2
-  generalize Gen.grad_milstein_s_additive_11_g_d1_39aaf857762f f f_d1 f_d2 g g_d1 t0 t2 dt y0_0_0 theta v_0_0 dW0_0_0 dW1_0_0 = a3
-  generalize Gen.grad_milstein_s_additive_11_g_d1_3d49352567ba f f_d1 f_d2 g g_d1 t0 t2 dt y0_0_0 theta v_0_0 dW0_0_0 dW1_0_0 = a4
+/-- `gradp_milstein_s_diagonal_11`: backprop `gth` = forward derivative `tth` -/
+theorem gradp_milstein_s_diagonal_11_gth  (f : K → K → K → K) (f_d1 : K → K → K → K) (f_d2 : K → K → K → K) (g : K → K → K → K) (g_d1 : K → K → K → K) (g_d11 : K → K → K → K) (g_d12 : K → K → K → K) (g_d2 : K → K → K → K) (t0 t2 dt y0_0_0 theta v_0_0 dW0_0_0 dW1_0_0 : K) :
+    Gen.gradp_milstein_s_diagonal_11_gth f f_d1 f_d2 g g_d1 g_d11 g_d12 g_d2 t0 t2 dt y0_0_0 theta v_0_0 dW0_0_0 dW1_0_0 = Gen.gradp_milstein_s_diagonal_11_tth f f_d1 f_d2 g g_d1 g_d11 g_d12 g_d2 t0 t2 dt y0_0_0 theta v_0_0 dW0_0_0 dW1_0_0 := by
+  simp only [Gen.gradp_milstein_s_diagonal_11_gth, Gen.gradp_milstein_s_diagonal_11_tth]
+  generalize Gen.gradp_milstein_s_diagonal_11_f_d1_d1594caba5a3 f f_d1 f_d2 g g_d1 g_d11 g_d12 g_d2 t0 t2 dt y0_0_0 theta v_0_0 dW0_0_0 dW1_0_0 = a0
+  generalize Gen.gradp_milstein_s_diagonal_11_f_d2_19f2c5491e7e f f_d1 f_d2 g g_d1 g_d11 g_d12 g_d2 t0 t2 dt y0_0_0 theta v_0_0 dW0_0_0 dW1_0_0 = a1
+  generalize Gen.gradp_milstein_s_diagonal_11_f_d2_75ad011491cf f f_d1 f_d2 g g_d1 g_d11 g_d12 g_d2 t0 t2 dt y0_0_0 theta v_0_0 dW0_0_0 dW1_0_0 = a2
+  generalize Gen.gradp_milstein_s_diagonal_11_g_91660bdd818e f f_d1 f_d2 g g_d1 g_d11 g_d12 g_d2 t0 t2 dt y0_0_0 theta v_0_0 dW0_0_0 dW1_0_0 = a3
+  generalize Gen.gradp_milstein_s_diagonal_11_g_d11_ac6c316b1b1e f f_d1 f_d2 g g_d1 g_d11 g_d12 g_d2 t0 t2 dt y0_0_0 theta v_0_0 dW0_0_0 dW1_0_0 = a4
+  generalize Gen.gradp_milstein_s_diagonal_11_g_d12_40f4a140374f f f_d1 f_d2 g g_d1 g_d11 g_d12 g_d2 t0 t2 dt y0_0_0 theta v_0_0 dW0_0_0 dW1_0_0 = a5
+  generalize Gen.gradp_milstein_s_diagonal_11_g_d12_a9aa2e37d5f4 f f_d1 f_d2 g g_d1 g_d11 g_d12 g_d2 t0 t2 dt y0_0_0 theta v_0_0 dW0_0_0 dW1_0_0 = a6
+  generalize Gen.gradp_milstein_s_diagonal_11_g_d1_1704cf843a85 f f_d1 f_d2 g g_d1 g_d11 g_d12 g_d2 t0 t2 dt y0_0_0 theta v_0_0 dW0_0_0 dW1_0_0 = a7
+  generalize Gen.gradp_milstein_s_diagonal_11_g_d1_ddd0c5e556e2 f f_d1 f_d2 g g_d1 g_d11 g_d12 g_d2 t0 t2 dt y0_0_0 theta v_0_0 dW0_0_0 dW1_0_0 = a8
+  generalize Gen.gradp_milstein_s_diagonal_11_g_d2_722b7a6bbfae f f_d1 f_d2 g g_d1 g_d11 g_d12 g_d2 t0 t2 dt y0_0_0 theta v_0_0 dW0_0_0 dW1_0_0 = a9
+  generalize Gen.gradp_milstein_s_diagonal_11_g_d2_b13a46e3cda9 f f_d1 f_d2 g g_d1 g_d11 g_d12 g_d2 t0 t2 dt y0_0_0 theta v_0_0 dW0_0_0 dW1_0_0 = a10
+  generalize Gen.gradp_milstein_s_diagonal_11_g_db15086d257d f f_d1 f_d2 g g_d1 g_d11 g_d12 g_d2 t0 t2 dt y0_0_0 theta v_0_0 dW0_0_0 dW1_0_0 = a11
   ring
 
 set_option maxHeartbeats 4000000 in
-/-- `grad_euler_heun_s_diagonal_11`: backprop `gy_0_0` = forward derivative `ty_0_0` -/
-theorem grad_euler_heun_s_diagonal_11_gy_0_0  (f : K → K → K → K) (f_d1 : K → K → K → K) (f_d2 : K → K → K → K) (g : K → K → K → K) (g_d1 : K → K → K → K) (g_d2 : K → K → K → K) (t0 t2 dt y0_0_0 theta v_0_0 dW0_0_0 dW1_0_0 : K) :
-    Gen.grad_euler_heun_s_diagonal_11_gy_0_0 f f_d1 f_d2 g g_d1 g_d2 t0 t2 dt y0_0_0 theta v_0_0 dW0_0_0 dW1_0_0 = Gen.grad_euler_heun_s_diagonal_11_ty_0_0 f f_d1 f_d2 g g_d1 g_d2 t0 t2 dt y0_0_0 theta v_0_0 dW0_0_0 dW1_0_0 := by
-  simp only [Gen.grad_euler_heun_s_diagonal_11_gy_0_0, Gen.grad_euler_heun_s_diagonal_11_ty_0_0]
-  generalize Gen.grad_euler_heun_s_diagonal_11_f_d1_7cbdf16831d8 f f_d1 f_d2 g g_d1 g_d2 t0 t2 dt y0_0_0 theta v_0_0 dW0_0_0 dW1_0_0 = a0
-  generalize Gen.grad_euler_heun_s_diagonal_11_f_d1_b39c2b677c13 f f_d1 f_d2 g g_d1 g_d2 t0 t2 dt y0_0_0 theta v_0_0 dW0_0_0 dW1_0_0 = a1
-  generalize Gen.grad_euler_heun_s_diagonal_11_g_d1_53853b54eea6 f f_d1 f_d2 g g_d1 g_d2 t0 t2 dt y0_0_0 theta v_0_0 dW0_0_0 dW1_0_0 = a2
-  generalize Gen.grad_euler_heun_s_diagonal_11_g_d1_5e54333cf929 f f_d1 f_d2 g g_d1 g_d2 t0 t2 dt y0_0_0 theta v_0_0 dW0_0_0 dW1_0_0 = a3
-  generalize Gen.grad_euler_heun_s_diagonal_11_g_d1_b614375c6151 f f_d1 f_d2 g g_d1 g_d2 t0 t2 dt y0_0_0 theta v_0_0 dW0_0_0 dW1_0_0 = a4
-  generalize Gen.grad_euler_heun_s_diagonal_11_g_d1_ddd0c5e556e2 f f_d1 f_d2 g g_d1 g_d2 t0 t2 dt y0_0_0 theta v_0_0 dW0_0_0 dW1_0_0 = a5
+/-- `grad_milstein_s_scalar_11_gf`: backprop `gth` = forward derivative `tth` -/
+theorem grad_milstein_s_scalar_11_gf_gth (sqrt : K → K) (f : K → K → K → K) (f_d1 : K → K → K → K) (f_d2 : K → K → K → K) (g : K → K → K → K) (g_d1 : K → K → K → K) (g_d2 : K → K → K → K) (t0 t2 dt y0_0_0 theta v_0_0 dW0_0_0 dW1_0_0 : K) :
+    Gen.grad_milstein_s_scalar_11_gf_gth sqrt f f_d1 f_d2 g g_d1 g_d2 t0 t2 dt y0_0_0 theta v_0_0 dW0_0_0 dW1_0_0 = Gen.grad_milstein_s_scalar_11_gf_tth sqrt f f_d1 f_d2 g g_d1 g_d2 t0 t2 dt y0_0_0 theta v_0_0 dW0_0_0 dW1_0_0 := by
+  simp only [Gen.grad_milstein_s_scalar_11_gf_gth, Gen.grad_milstein_s_scalar_11_gf_tth]
+  generalize Gen.grad_milstein_s_scalar_11_gf_f_d1_86118593e648 sqrt f f_d1 f_d2 g g_d1 g_d2 t0 t2 dt y0_0_0 theta v_0_0 dW0_0_0 dW1_0_0 = a0
+  generalize Gen.grad_milstein_s_scalar_11_gf_f_d2_75ad011491cf sqrt f f_d1 f_d2 g g_d1 g_d2 t0 t2 dt y0_0_0 theta v_0_0 dW0_0_0 dW1_0_0 = a1
+  generalize Gen.grad_milstein_s_scalar_11_gf_f_d2_bd981b19cbe7 sqrt f f_d1 f_d2 g g_d1 g_d2 t0 t2 dt y0_0_0 theta v_0_0 dW0_0_0 dW1_0_0 = a2
+  generalize Gen.grad_milstein_s_scalar_11_gf_g_d1_0e6b2c0fdde1 sqrt f f_d1 f_d2 g g_d1 g_d2 t0 t2 dt y0_0_0 theta v_0_0 dW0_0_0 dW1_0_0 = a3
+  generalize Gen.grad_milstein_s_scalar_11_gf_g_d1_5313a806fc11 sqrt f f_d1 f_d2 g g_d1 g_d2 t0 t2 dt y0_0_0 theta v_0_0 dW0_0_0 dW1_0_0 = a4
+  generalize Gen.grad_milstein_s_scalar_11_gf_g_d1_62a0330e4979 sqrt f f_d1 f_d2 g g_d1 g_d2 t0 t2 dt y0_0_0 theta v_0_0 dW0_0_0 dW1_0_0 = a5
+  generalize Gen.grad_milstein_s_scalar_11_gf_g_d1_abf59d802044 sqrt f f_d1 f_d2 g g_d1 g_d2 t0 t2 dt y0_0_0 theta v_0_0 dW0_0_0 dW1_0_0 = a6
+  generalize Gen.grad_milstein_s_scalar_11_gf_g_d1_c499cf12888f sqrt f f_d1 f_d2 g g_d1 g_d2 t0 t2 dt y0_0_0 theta v_0_0 dW0_0_0 dW1_0_0 = a7
+  generalize Gen.grad_milstein_s_scalar_11_gf_g_d2_41ada98a6bb9 sqrt f f_d1 f_d2 g g_d1 g_d2 t0 t2 dt y0_0_0 theta v_0_0 dW0_0_0 dW1_0_0 = a8
+  generalize Gen.grad_milstein_s_scalar_11_gf_g_d2_722b7a6bbfae sqrt f f_d1 f_d2 g g_d1 g_d2 t0 t2 dt y0_0_0 theta v_0_0 dW0_0_0 dW1_0_0 = a9
+  generalize Gen.grad_milstein_s_scalar_11_gf_g_d2_80b836f059fa sqrt f f_d1 f_d2 g g_d1 g_d2 t0 t2 dt y0_0_0 theta v_0_0 dW0_0_0 dW1_0_0 = a10
+  generalize Gen.grad_milstein_s_scalar_11_gf_g_d2_e32481f40965 sqrt f f_d1 f_d2 g g_d1 g_d2 t0 t2 dt y0_0_0 theta v_0_0 dW0_0_0 dW1_0_0 = a11
+  generalize Gen.grad_milstein_s_scalar_11_gf_g_d2_fc09d64533e7 sqrt f f_d1 f_d2 g g_d1 g_d2 t0 t2 dt y0_0_0 theta v_0_0 dW0_0_0 dW1_0_0 = a12
+  generalize Gen.grad_milstein_s_scalar_11_gf_g_d2_fc9434643c51 sqrt f f_d1 f_d2 g g_d1 g_d2 t0 t2 dt y0_0_0 theta v_0_0 dW0_0_0 dW1_0_0 = a13
   ring
 
 set_option maxHeartbeats 4000000 in
-/-- `grad_euler_heun_s_diagonal_11`: backprop `gth` = forward derivative `tth` -/
-theorem grad_euler_heun_s_diagonal_11_gth  (f : K → K → K → K) (f_d1 : K → K → K → K) (f_d2 : K → K → K → K) (g : K → K → K → K) (g_d1 : K → K → K → K) (g_d2 : K → K → K → K) (t0 t2 dt y0_0_0 theta v_0_0 dW0_0_0 dW1_0_0 : K) :
-    Gen.grad_euler_heun_s_diagonal_11_gth f f_d1 f_d2 g g_d1 g_d2 t0 t2 dt y0_0_0 theta v_0_0 dW0_0_0 dW1_0_0 = Gen.grad_euler_heun_s_diagonal_11_tth f f_d1 f_d2 g g_d1 g_d2 t0 t2 dt y0_0_0 theta v_0_0 dW0_0_0 dW1_0_0 := by
-  simp only [Gen.grad_euler_heun_s_diagonal_11_gth, Gen.grad_euler_heun_s_diagonal_11_tth]
-  generalize Gen.grad_euler_heun_s_diagonal_11_f_d1_7cbdf16831d8 f f_d1 f_d2 g g_d1 g_d2 t0 t2 dt y0_0_0 theta v_0_0 dW0_0_0 dW1_0_0 = a0
-  generalize Gen.grad_euler_heun_s_diagonal_11_f_d2_75ad011491cf f f_d1 f_d2 g g_d1 g_d2 t0 t2 dt y0_0_0 theta v_0_0 dW0_0_0 dW1_0_0 = a1
-  generalize Gen.grad_euler_heun_s_diagonal_11_f_d2_f32f36b49a22 f f_d1 f_d2 g g_d1 g_d2 t0 t2 dt y0_0_0 theta v_0_0 dW0_0_0 dW1_0_0 = a2
-  generalize Gen.grad_euler_heun_s_diagonal_11_g_d1_53853b54eea6 f f_d1 f_d2 g g_d1 g_d2 t0 t2 dt y0_0_0 theta v_0_0 dW0_0_0 dW1_0_0 = a3
-  generalize Gen.grad_euler_heun_s_diagonal_11_g_d1_5e54333cf929 f f_d1 f_d2 g g_d1 g_d2 t0 t2 dt y0_0_0 theta v_0_0 dW0_0_0 dW1_0_0 = a4
-  generalize Gen.grad_euler_heun_s_diagonal_11_g_d1_b614375c6151 f f_d1 f_d2 g g_d1 g_d2 t0 t2 dt y0_0_0 theta v_0_0 dW0_0_0 dW1_0_0 = a5
-  generalize Gen.grad_euler_heun_s_diagonal_11_g_d2_09a42bc83543 f f_d1 f_d2 g g_d1 g_d2 t0 t2 dt y0_0_0 theta v_0_0 dW0_0_0 dW1_0_0 = a6
-  generalize Gen.grad_euler_heun_s_diagonal_11_g_d2_265183a04306 f f_d1 f_d2 g g_d1 g_d2 t0 t2 dt y0_0_0 theta v_0_0 dW0_0_0 dW1_0_0 = a7
-  generalize Gen.grad_euler_heun_s_diagonal_11_g_d2_722b7a6bbfae f f_d1 f_d2 g g_d1 g_d2 t0 t2 dt y0_0_0 theta v_0_0 dW0_0_0 dW1_0_0 = a8
-  generalize Gen.grad_euler_heun_s_diagonal_11_g_d2_db3783b54d14 f f_d1 f_d2 g g_d1 g_d2 t0 t2 dt y0_0_0 theta v_0_0 dW0_0_0 dW1_0_0 = a9
+/-- `grad_milstein_s_scalar_11_gf`: backprop `gy_0_0` = forward derivative `ty_0_0` -/
+theorem grad_milstein_s_scalar_11_gf_gy_0_0 (sqrt : K → K) (f : K → K → K → K) (f_d1 : K → K → K → K) (f_d2 : K → K → K → K) (g : K → K → K → K) (g_d1 : K → K → K → K) (g_d2 : K → K → K → K) (t0 t2 dt y0_0_0 theta v_0_0 dW0_0_0 dW1_0_0 : K) :
+    Gen.grad_milstein_s_scalar_11_gf_gy_0_0 sqrt f f_d1 f_d2 g g_d1 g_d2 t0 t2 dt y0_0_0 theta v_0_0 dW0_0_0 dW1_0_0 = Gen.grad_milstein_s_scalar_11_gf_ty_0_0 sqrt f f_d1 f_d2 g g_d1 g_d2 t0 t2 dt y0_0_0 theta v_0_0 dW0_0_0 dW1_0_0 := by
+  simp only [Gen.grad_milstein_s_scalar_11_gf_gy_0_0, Gen.grad_milstein_s_scalar_11_gf_ty_0_0]
+  generalize Gen.grad_milstein_s_scalar_11_gf_f_d1_86118593e648 sqrt f f_d1 f_d2 g g_d1 g_d2 t0 t2 dt y0_0_0 theta v_0_0 dW0_0_0 dW1_0_0 = a0
+  generalize Gen.grad_milstein_s_scalar_11_gf_f_d1_b39c2b677c13 sqrt f f_d1 f_d2 g g_d1 g_d2 t0 t2 dt y0_0_0 theta v_0_0 dW0_0_0 dW1_0_0 = a1
+  generalize Gen.grad_milstein_s_scalar_11_gf_g_d1_0e6b2c0fdde1 sqrt f f_d1 f_d2 g g_d1 g_d2 t0 t2 dt y0_0_0 theta v_0_0 dW0_0_0 dW1_0_0 = a2
+  generalize Gen.grad_milstein_s_scalar_11_gf_g_d1_5313a806fc11 sqrt f f_d1 f_d2 g g_d1 g_d2 t0 t2 dt y0_0_0 theta v_0_0 dW0_0_0 dW1_0_0 = a3
+  generalize Gen.grad_milstein_s_scalar_11_gf_g_d1_62a0330e4979 sqrt f f_d1 f_d2 g g_d1 g_d2 t0 t2 dt y0_0_0 theta v_0_0 dW0_0_0 dW1_0_0 = a4
+  generalize Gen.grad_milstein_s_scalar_11_gf_g_d1_abf59d802044 sqrt f f_d1 f_d2 g g_d1 g_d2 t0 t2 dt y0_0_0 theta v_0_0 dW0_0_0 dW1_0_0 = a5
+  generalize Gen.grad_milstein_s_scalar_11_gf_g_d1_c499cf12888f sqrt f f_d1 f_d2 g g_d1 g_d2 t0 t2 dt y0_0_0 theta v_0_0 dW0_0_0 dW1_0_0 = a6
+  generalize Gen.grad_milstein_s_scalar_11_gf_g_d1_ddd0c5e556e2 sqrt f f_d1 f_d2 g g_d1 g_d2 t0 t2 dt y0_0_0 theta v_0_0 dW0_0_0 dW1_0_0 = a7
   ring
 
 set_option maxHeartbeats 4000000 in
-/-- `grad_heun_s_scalar_11`: backprop `gy_0_0` = forward derivative `ty_0_0` -/
-theorem grad_heun_s_scalar_11_gy_0_0  (f : K → K → K → K) (f_d1 : K → K → K → K) (f_d2 : K → K → K → K) (g : K → K → K → K) (g_d1 : K → K → K → K) (g_d2 : K → K → K → K) (t0 t2 dt y0_0_0 theta v_0_0 dW0_0_0 dW1_0_0 : K) :
-    Gen.grad_heun_s_scalar_11_gy_0_0 f f_d1 f_d2 g g_d1 g_d2 t0 t2 dt y0_0_0 theta v_0_0 dW0_0_0 dW1_0_0 = Gen.grad_heun_s_scalar_11_ty_0_0 f f_d1 f_d2 g g_d1 g_d2 t0 t2 dt y0_0_0 theta v_0_0 dW0_0_0 dW1_0_0 := by
-  simp only [Gen.grad_heun_s_scalar_11_gy_0_0, Gen.grad_heun_s_scalar_11_ty_0_0]
-  generalize Gen.grad_heun_s_scalar_11_f_d1_850996a283cd f f_d1 f_d2 g g_d1 g_d2 t0 t2 dt y0_0_0 theta v_0_0 dW0_0_0 dW1_0_0 = a0
-  generalize Gen.grad_heun_s_scalar_11_f_d1_a0c409c02ee2 f f_d1 f_d2 g g_d1 g_d2 t0 t2 dt y0_0_0 theta v_0_0 dW0_0_0 dW1_0_0 = a1
-  generalize Gen.grad_heun_s_scalar_11_f_d1_aa6f717505bc f f_d1 f_d2 g g_d1 g_d2 t0 t2 dt y0_0_0 theta v_0_0 dW0_0_0 dW1_0_0 = a2
-  generalize Gen.grad_heun_s_scalar_11_f_d1_b39c2b677c13 f f_d1 f_d2 g g_d1 g_d2 t0 t2 dt y0_0_0 theta v_0_0 dW0_0_0 dW1_0_0 = a3
-  generalize Gen.grad_heun_s_scalar_11_g_d1_32d16569e2d0 f f_d1 f_d2 g g_d1 g_d2 t0 t2 dt y0_0_0 theta v_0_0 dW0_0_0 dW1_0_0 = a4
-  generalize Gen.grad_heun_s_scalar_11_g_d1_506c676fd130 f f_d1 f_d2 g g_d1 g_d2 t0 t2 dt y0_0_0 theta v_0_0 dW0_0_0 dW1_0_0 = a5
-  generalize Gen.grad_heun_s_scalar_11_g_d1_6a8c15d1c454 f f_d1 f_d2 g g_d1 g_d2 t0 t2 dt y0_0_0 theta v_0_0 dW0_0_0 dW1_0_0 = a6
-  generalize Gen.grad_heun_s_scalar_11_g_d1_ddd0c5e556e2 f f_d1 f_d2 g g_d1 g_d2 t0 t2 dt y0_0_0 theta v_0_0 dW0_0_0 dW1_0_0 = a7
+/-- `gradp_srk_i_scalar_11`: backprop `gth` = forward derivative `tth` -/
+theorem gradp_srk_i_scalar_11_gth (sqrt : K → K) (f : K → K → K → K) (f_d1 : K → K → K → K) (f_d2 : K → K → K → K) (g : K → K → K → K) (g_d1 : K → K → K → K) (g_d2 : K → K → K → K) (t0 t2 dt y0_0_0 theta v_0_0 dW0_0_0 U0_0_0 : K) :
+    Gen.gradp_srk_i_scalar_11_gth sqrt f f_d1 f_d2 g g_d1 g_d2 t0 t2 dt y0_0_0 theta v_0_0 dW0_0_0 U0_0_0 = Gen.gradp_srk_i_scalar_11_tth sqrt f f_d1 f_d2 g g_d1 g_d2 t0 t2 dt y0_0_0 theta v_0_0 dW0_0_0 U0_0_0 := by
+  simp only [Gen.gradp_srk_i_scalar_11_gth, Gen.gradp_srk_i_scalar_11_tth]
+  generalize Gen.gradp_srk_i_scalar_11_f_d1_a342043d5a17 sqrt f f_d1 f_d2 g g_d1 g_d2 t0 t2 dt y0_0_0 theta v_0_0 dW0_0_0 U0_0_0 = a0
+  generalize Gen.gradp_srk_i_scalar_11_f_d1_d156dc18c48e sqrt f f_d1 f_d2 g g_d1 g_d2 t0 t2 dt y0_0_0 theta v_0_0 dW0_0_0 U0_0_0 = a1
+  generalize Gen.gradp_srk_i_scalar_11_f_d1_eea9c406aae6 sqrt f f_d1 f_d2 g g_d1 g_d2 t0 t2 dt y0_0_0 theta v_0_0 dW0_0_0 U0_0_0 = a2
+  generalize Gen.gradp_srk_i_scalar_11_f_d2_310d86aaeece sqrt f f_d1 f_d2 g g_d1 g_d2 t0 t2 dt y0_0_0 theta v_0_0 dW0_0_0 U0_0_0 = a3
+  generalize Gen.gradp_srk_i_scalar_11_f_d2_43a8eccf42bd sqrt f f_d1 f_d2 g g_d1 g_d2 t0 t2 dt y0_0_0 theta v_0_0 dW0_0_0 U0_0_0 = a4
+  generalize Gen.gradp_srk_i_scalar_11_f_d2_652b80508777 sqrt f f_d1 f_d2 g g_d1 g_d2 t0 t2 dt y0_0_0 theta v_0_0 dW0_0_0 U0_0_0 = a5
+  generalize Gen.gradp_srk_i_scalar_11_f_d2_c1eb736ab027 sqrt f f_d1 f_d2 g g_d1 g_d2 t0 t2 dt y0_0_0 theta v_0_0 dW0_0_0 U0_0_0 = a6
+  generalize Gen.gradp_srk_i_scalar_11_g_d1_3cc28ec53cea sqrt f f_d1 f_d2 g g_d1 g_d2 t0 t2 dt y0_0_0 theta v_0_0 dW0_0_0 U0_0_0 = a7
+  generalize Gen.gradp_srk_i_scalar_11_g_d1_523c86524621 sqrt f f_d1 f_d2 g g_d1 g_d2 t0 t2 dt y0_0_0 theta v_0_0 dW0_0_0 U0_0_0 = a8
+  generalize Gen.gradp_srk_i_scalar_11_g_d1_a6006d1b1274 sqrt f f_d1 f_d2 g g_d1 g_d2 t0 t2 dt y0_0_0 theta v_0_0 dW0_0_0 U0_0_0 = a9
+  generalize Gen.gradp_srk_i_scalar_11_g_d2_0dc38bec0349 sqrt f f_d1 f_d2 g g_d1 g_d2 t0 t2 dt y0_0_0 theta v_0_0 dW0_0_0 U0_0_0 = a10
+  generalize Gen.gradp_srk_i_scalar_11_g_d2_2f935788fb80 sqrt f f_d1 f_d2 g g_d1 g_d2 t0 t2 dt y0_0_0 theta v_0_0 dW0_0_0 U0_0_0 = a11
+  generalize Gen.gradp_srk_i_scalar_11_g_d2_86f392ebaf1c sqrt f f_d1 f_d2 g g_d1 g_d2 t0 t2 dt y0_0_0 theta v_0_0 dW0_0_0 U0_0_0 = a12
+  generalize Gen.gradp_srk_i_scalar_11_g_d2_ebe97742e314 sqrt f f_d1 f_d2 g g_d1 g_d2 t0 t2 dt y0_0_0 theta v_0_0 dW0_0_0 U0_0_0 = a13
   ring
 
 set_option maxHeartbeats 4000000 in
-/-- `grad_heun_s_scalar_11`: backprop `gth` = forward derivative `tth` -/
-theorem grad_heun_s_scalar_11_gth  (f : K → K → K → K) (f_d1 : K → K → K → K) (f_d2 : K → K → K → K) (g : K → K → K → K) (g_d1 : K → K → K → K) (g_d2 : K → K → K → K) (t0 t2 dt y0_0_0 theta v_0_0 dW0_0_0 dW1_0_0 : K) :
-    Gen.grad_heun_s_scalar_11_gth f f_d1 f_d2 g g_d1 g_d2 t0 t2 dt y0_0_0 theta v_0_0 dW0_0_0 dW1_0_0 = Gen.grad_heun_s_scalar_11_tth f f_d1 f_d2 g g_d1 g_d2 t0 t2 dt y0_0_0 theta v_0_0 dW0_0_0 dW1_0_0 := by
-  simp only [Gen.grad_heun_s_scalar_11_gth, Gen.grad_heun_s_scalar_11_tth]
-  generalize Gen.grad_heun_s_scalar_11_f_d1_850996a283cd f f_d1 f_d2 g g_d1 g_d2 t0 t2 dt y0_0_0 theta v_0_0 dW0_0_0 dW1_0_0 = a0
-  generalize Gen.grad_heun_s_scalar_11_f_d1_a0c409c02ee2 f f_d1 f_d2 g g_d1 g_d2 t0 t2 dt y0_0_0 theta v_0_0 dW0_0_0 dW1_0_0 = a1
-  generalize Gen.grad_heun_s_scalar_11_f_d1_aa6f717505bc f f_d1 f_d2 g g_d1 g_d2 t0 t2 dt y0_0_0 theta v_0_0 dW0_0_0 dW1_0_0 = a2
-  generalize Gen.grad_heun_s_scalar_11_f_d2_75ad011491cf f f_d1 f_d2 g g_d1 g_d2 t0 t2 dt y0_0_0 theta v_0_0 dW0_0_0 dW1_0_0 = a3
-  generalize Gen.grad_heun_s_scalar_11_f_d2_85fb27cb9ecd f f_d1 f_d2 g g_d1 g_d2 t0 t2 dt y0_0_0 theta v_0_0 dW0_0_0 dW1_0_0 = a4
-  generalize Gen.grad_heun_s_scalar_11_f_d2_f0ddd094ca46 f f_d1 f_d2 g g_d1 g_d2 t0 t2 dt y0_0_0 theta v_0_0 dW0_0_0 dW1_0_0 = a5
-  generalize Gen.grad_heun_s_scalar_11_f_d2_f2b7d9350614 f f_d1 f_d2 g g_d1 g_d2 t0 t2 dt y0_0_0 theta v_0_0 dW0_0_0 dW1_0_0 = a6
-  generalize Gen.grad_heun_s_scalar_11_g_d1_32d16569e2d0 f f_d1 f_d2 g g_d1 g_d2 t0 t2 dt y0_0_0 theta v_0_0 dW0_0_0 dW1_0_0 = a7
-  generalize Gen.grad_heun_s_scalar_11_g_d1_506c676fd130 f f_d1 f_d2 g g_d1 g_d2 t0 t2 dt y0_0_0 theta v_0_0 dW0_0_0 dW1_0_0 = a8
-  generalize Gen.grad_heun_s_scalar_11_g_d1_6a8c15d1c454 f f_d1 f_d2 g g_d1 g_d2 t0 t2 dt y0_0_0 theta v_0_0 dW0_0_0 dW1_0_0 = a9
-  generalize Gen.grad_heun_s_scalar_11_g_d2_02f255630af5 f f_d1 f_d2 g g_d1 g_d2 t0 t2 dt y0_0_0 theta v_0_0 dW0_0_0 dW1_0_0 = a10
-  generalize Gen.grad_heun_s_scalar_11_g_d2_4079b3c76e81 f f_d1 f_d2 g g_d1 g_d2 t0 t2 dt y0_0_0 theta v_0_0 dW0_0_0 dW1_0_0 = a11
-  generalize Gen.grad_heun_s_scalar_11_g_d2_46fb04d4bfcb f f_d1 f_d2 g g_d1 g_d2 t0 t2 dt y0_0_0 theta v_0_0 dW0_0_0 dW1_0_0 = a12
-  generalize Gen.grad_heun_s_scalar_11_g_d2_722b7a6bbfae f f_d1 f_d2 g g_d1 g_d2 t0 t2 dt y0_0_0 theta v_0_0 dW0_0_0 dW1_0_0 = a13
+/-- `gradp_euler_heun_s_scalar_11`: backprop `gth` = forward derivative `tth` -/
+theorem gradp_euler_heun_s_scalar_11_gth  (f : K → K → K → K) (f_d1 : K → K → K → K) (f_d2 : K → K → K → K) (g : K → K → K → K) (g_d1 : K → K → K → K) (g_d2 : K → K → K → K) (t0 t2 dt y0_0_0 theta v_0_0 dW0_0_0 dW1_0_0 : K) :
+    Gen.gradp_euler_heun_s_scalar_11_gth f f_d1 f_d2 g g_d1 g_d2 t0 t2 dt y0_0_0 theta v_0_0 dW0_0_0 dW1_0_0 = Gen.gradp_euler_heun_s_scalar_11_tth f f_d1 f_d2 g g_d1 g_d2 t0 t2 dt y0_0_0 theta v_0_0 dW0_0_0 dW1_0_0 := by
+  simp only [Gen.gradp_euler_heun_s_scalar_11_gth, Gen.gradp_euler_heun_s_scalar_11_tth]
+  generalize Gen.gradp_euler_heun_s_scalar_11_f_d1_7cbdf16831d8 f f_d1 f_d2 g g_d1 g_d2 t0 t2 dt y0_0_0 theta v_0_0 dW0_0_0 dW1_0_0 = a0
+  generalize Gen.gradp_euler_heun_s_scalar_11_f_d2_75ad011491cf f f_d1 f_d2 g g_d1 g_d2 t0 t2 dt y0_0_0 theta v_0_0 dW0_0_0 dW1_0_0 = a1
+  generalize Gen.gradp_euler_heun_s_scalar_11_f_d2_f32f36b49a22 f f_d1 f_d2 g g_d1 g_d2 t0 t2 dt y0_0_0 theta v_0_0 dW0_0_0 dW1_0_0 = a2
+  generalize Gen.gradp_euler_heun_s_scalar_11_g_d1_53853b54eea6 f f_d1 f_d2 g g_d1 g_d2 t0 t2 dt y0_0_0 theta v_0_0 dW0_0_0 dW1_0_0 = a3
+  generalize Gen.gradp_euler_heun_s_scalar_11_g_d1_5e54333cf929 f f_d1 f_d2 g g_d1 g_d2 t0 t2 dt y0_0_0 theta v_0_0 dW0_0_0 dW1_0_0 = a4
+  generalize Gen.gradp_euler_heun_s_scalar_11_g_d1_b614375c6151 f f_d1 f_d2 g g_d1 g_d2 t0 t2 dt y0_0_0 theta v_0_0 dW0_0_0 dW1_0_0 = a5
+  generalize Gen.gradp_euler_heun_s_scalar_11_g_d2_09a42bc83543 f f_d1 f_d2 g g_d1 g_d2 t0 t2 dt y0_0_0 theta v_0_0 dW0_0_0 dW1_0_0 = a6
+  generalize Gen.gradp_euler_heun_s_scalar_11_g_d2_265183a04306 f f_d1 f_d2 g g_d1 g_d2 t0 t2 dt y0_0_0 theta v_0_0 dW0_0_0 dW1_0_0 = a7
+  generalize Gen.gradp_euler_heun_s_scalar_11_g_d2_722b7a6bbfae f f_d1 f_d2 g g_d1 g_d2 t0 t2 dt y0_0_0 theta v_0_0 dW0_0_0 dW1_0_0 = a8
+  generalize Gen.gradp_euler_heun_s_scalar_11_g_d2_db3783b54d14 f f_d1 f_d2 g g_d1 g_d2 t0 t2 dt y0_0_0 theta v_0_0 dW0_0_0 dW1_0_0 = a9
   ring
 
 set_option maxHeartbeats 4000000 in
-/-- `grad_log_ode_s_diagonal_11`: backprop `gy_0_0` = forward derivative `ty_0_0` -/
-theorem grad_log_ode_s_diagonal_11_gy_0_0  (f : K → K → K → K) (f_d1 : K → K → K → K) (f_d2 : K → K → K → K) (g : K → K → K → K) (g_d1 : K → K → K → K) (g_d2 : K → K → K → K) (t0 t2 dt y0_0_0 theta v_0_0 dW0_0_0 dW1_0_0 U0_0_0 U1_0_0 A0_0_0_0 A1_0_0_0 : K) :
-    Gen.grad_log_ode_s_diagonal_11_gy_0_0 f f_d1 f_d2 g g_d1 g_d2 t0 t2 dt y0_0_0 theta v_0_0 dW0_0_0 dW1_0_0 U0_0_0 U1_0_0 A0_0_0_0 A1_0_0_0 = Gen.grad_log_ode_s_diagonal_11_ty_0_0 f f_d1 f_d2 g g_d1 g_d2 t0 t2 dt y0_0_0 theta v_0_0 dW0_0_0 dW1_0_0 U0_0_0 U1_0_0 A0_0_0_0 A1_0_0_0 := by
-  simp only [Gen.grad_log_ode_s_diagonal_11_gy_0_0, Gen.grad_log_ode_s_diagonal_11_ty_0_0]
-  generalize Gen.grad_log_ode_s_diagonal_11_f_d1_aa6e56519ae1 f f_d1 f_d2 g g_d1 g_d2 t0 t2 dt y0_0_0 theta v_0_0 dW0_0_0 dW1_0_0 U0_0_0 U1_0_0 A0_0_0_0 A1_0_0_0 = a0
-  generalize Gen.grad_log_ode_s_diagonal_11_f_d1_b39c2b677c13 f f_d1 f_d2 g g_d1 g_d2 t0 t2 dt y0_0_0 theta v_0_0 dW0_0_0 dW1_0_0 U0_0_0 U1_0_0 A0_0_0_0 A1_0_0_0 = a1
-  generalize Gen.grad_log_ode_s_diagonal_11_f_d1_c2712a6d7499 f f_d1 f_d2 g g_d1 g_d2 t0 t2 dt y0_0_0 theta v_0_0 dW0_0_0 dW1_0_0 U0_0_0 U1_0_0 A0_0_0_0 A1_0_0_0 = a2
-  generalize Gen.grad_log_ode_s_diagonal_11_f_d1_ea194427e5d2 f f_d1 f_d2 g g_d1 g_d2 t0 t2 dt y0_0_0 theta v_0_0 dW0_0_0 dW1_0_0 U0_0_0 U1_0_0 A0_0_0_0 A1_0_0_0 = a3
-  generalize Gen.grad_log_ode_s_diagonal_11_g_d1_76b5237ed2e6 f f_d1 f_d2 g g_d1 g_d2 t0 t2 dt y0_0_0 theta v_0_0 dW0_0_0 dW1_0_0 U0_0_0 U1_0_0 A0_0_0_0 A1_0_0_0 = a4
-  generalize Gen.grad_log_ode_s_diagonal_11_g_d1_b39451c7c697 f f_d1 f_d2 g g_d1 g_d2 t0 t2 dt y0_0_0 theta v_0_0 dW0_0_0 dW1_0_0 U0_0_0 U1_0_0 A0_0_0_0 A1_0_0_0 = a5
-  generalize Gen.grad_log_ode_s_diagonal_11_g_d1_d76ea1a1c502 f f_d1 f_d2 g g_d1 g_d2 t0 t2 dt y0_0_0 theta v_0_0 dW0_0_0 dW1_0_0 U0_0_0 U1_0_0 A0_0_0_0 A1_0_0_0 = a6
-  generalize Gen.grad_log_ode_s_diagonal_11_g_d1_ddd0c5e556e2 f f_d1 f_d2 g g_d1 g_d2 t0 t2 dt y0_0_0 theta v_0_0 dW0_0_0 dW1_0_0 U0_0_0 U1_0_0 A0_0_0_0 A1_0_0_0 = a7
+/-- `gradp_heun_s_additive_11`: backprop `gth` = forward derivative `tth` -/
+theorem gradp_heun_s_additive_11_gth  (f : K → K → K → K) (f_d1 : K → K → K → K) (f_d2 : K → K → K → K) (g : K → K → K) (g_d1 : K → K → K) (t0 t2 dt y0_0_0 theta v_0_0 dW0_0_0 dW1_0_0 : K) :
+    Gen.gradp_heun_s_additive_11_gth f f_d1 f_d2 g g_d1 t0 t2 dt y0_0_0 theta v_0_0 dW0_0_0 dW1_0_0 = Gen.gradp_heun_s_additive_11_tth f f_d1 f_d2 g g_d1 t0 t2 dt y0_0_0 theta v_0_0 dW0_0_0 dW1_0_0 := by
+  simp only [Gen.gradp_heun_s_additive_11_gth, Gen.gradp_heun_s_additive_11_tth]
+  generalize Gen.gradp_heun_s_additive_11_f_d1_1fd7db64d481 f f_d1 f_d2 g g_d1 t0 t2 dt y0_0_0 theta v_0_0 dW0_0_0 dW1_0_0 = a0
+  generalize Gen.gradp_heun_s_additive_11_f_d1_47ec61cef5f6 f f_d1 f_d2 g g_d1 t0 t2 dt y0_0_0 theta v_0_0 dW0_0_0 dW1_0_0 = a1
+  generalize Gen.gradp_heun_s_additive_11_f_d1_9c9ad135697f f f_d1 f_d2 g g_d1 t0 t2 dt y0_0_0 theta v_0_0 dW0_0_0 dW1_0_0 = a2
+  generalize Gen.gradp_heun_s_additive_11_f_d2_75ad011491cf f f_d1 f_d2 g g_d1 t0 t2 dt y0_0_0 theta v_0_0 dW0_0_0 dW1_0_0 = a3
+  generalize Gen.gradp_heun_s_additive_11_f_d2_8dd5d4daeaa4 f f_d1 f_d2 g g_d1 t0 t2 dt y0_0_0 theta v_0_0 dW0_0_0 dW1_0_0 = a4
+  generalize Gen.gradp_heun_s_additive_11_f_d2_9624fdf97184 f f_d1 f_d2 g g_d1 t0 t2 dt y0_0_0 theta v_0_0 dW0_0_0 dW1_0_0 = a5
+  generalize Gen.gradp_heun_s_additive_11_f_d2_b2116ecde5ac f f_d1 f_d2 g g_d1 t0 t2 dt y0_0_0 theta v_0_0 dW0_0_0 dW1_0_0 = a6
+  generalize Gen.gradp_heun_s_additive_11_g_d1_098edafcd8e5 f f_d1 f_d2 g g_d1 t0 t2 dt y0_0_0 theta v_0_0 dW0_0_0 dW1_0_0 = a7
+  generalize Gen.gradp_heun_s_additive_11_g_d1_39aaf857762f f f_d1 f_d2 g g_d1 t0 t2 dt y0_0_0 theta v_0_0 dW0_0_0 dW1_0_0 = a8
+  generalize Gen.gradp_heun_s_additive_11_g_d1_3d49352567ba f f_d1 f_d2 g g_d1 t0 t2 dt y0_0_0 theta v_0_0 dW0_0_0 dW1_0_0 = a9
   ring
 
 set_option maxHeartbeats 4000000 in
-/-- `grad_log_ode_s_diagonal_11`: backprop `gth` = forward derivative `tth` -/
-theorem grad_log_ode_s_diagonal_11_gth  (f : K → K → K → K) (f_d1 : K → K → K → K) (f_d2 : K → K → K → K) (g : K → K → K → K) (g_d1 : K → K → K → K) (g_d2 : K → K → K → K) (t0 t2 dt y0_0_0 theta v_0_0 dW0_0_0 dW1_0_0 U0_0_0 U1_0_0 A0_0_0_0 A1_0_0_0 : K) :
-    Gen.grad_log_ode_s_diagonal_11_gth f f_d1 f_d2 g g_d1 g_d2 t0 t2 dt y0_0_0 theta v_0_0 dW0_0_0 dW1_0_0 U0_0_0 U1_0_0 A0_0_0_0 A1_0_0_0 = Gen.grad_log_ode_s_diagonal_11_tth f f_d1 f_d2 g g_d1 g_d2 t0 t2 dt y0_0_0 theta v_0_0 dW0_0_0 dW1_0_0 U0_0_0 U1_0_0 A0_0_0_0 A1_0_0_0 := by
-  simp only [Gen.grad_log_ode_s_diagonal_11_gth, Gen.grad_log_ode_s_diagonal_11_tth]
-  generalize Gen.grad_log_ode_s_diagonal_11_f_d1_aa6e56519ae1 f f_d1 f_d2 g g_d1 g_d2 t0 t2 dt y0_0_0 theta v_0_0 dW0_0_0 dW1_0_0 U0_0_0 U1_0_0 A0_0_0_0 A1_0_0_0 = a0
-  generalize Gen.grad_log_ode_s_diagonal_11_f_d1_c2712a6d7499 f f_d1 f_d2 g g_d1 g_d2 t0 t2 dt y0_0_0 theta v_0_0 dW0_0_0 dW1_0_0 U0_0_0 U1_0_0 A0_0_0_0 A1_0_0_0 = a1
-  generalize Gen.grad_log_ode_s_diagonal_11_f_d1_ea194427e5d2 f f_d1 f_d2 g g_d1 g_d2 t0 t2 dt y0_0_0 theta v_0_0 dW0_0_0 dW1_0_0 U0_0_0 U1_0_0 A0_0_0_0 A1_0_0_0 = a2
-  generalize Gen.grad_log_ode_s_diagonal_11_f_d2_6bf883ebc92c f f_d1 f_d2 g g_d1 g_d2 t0 t2 dt y0_0_0 theta v_0_0 dW0_0_0 dW1_0_0 U0_0_0 U1_0_0 A0_0_0_0 A1_0_0_0 = a3
-  generalize Gen.grad_log_ode_s_diagonal_11_f_d2_75ad011491cf f f_d1 f_d2 g g_d1 g_d2 t0 t2 dt y0_0_0 theta v_0_0 dW0_0_0 dW1_0_0 U0_0_0 U1_0_0 A0_0_0_0 A1_0_0_0 = a4
-  generalize Gen.grad_log_ode_s_diagonal_11_f_d2_9f37c3dc046f f f_d1 f_d2 g g_d1 g_d2 t0 t2 dt y0_0_0 theta v_0_0 dW0_0_0 dW1_0_0 U0_0_0 U1_0_0 A0_0_0_0 A1_0_0_0 = a5
-  generalize Gen.grad_log_ode_s_diagonal_11_f_d2_d7cbc9408b90 f f_d1 f_d2 g g_d1 g_d2 t0 t2 dt y0_0_0 theta v_0_0 dW0_0_0 dW1_0_0 U0_0_0 U1_0_0 A0_0_0_0 A1_0_0_0 = a6
-  generalize Gen.grad_log_ode_s_diagonal_11_g_d1_76b5237ed2e6 f f_d1 f_d2 g g_d1 g_d2 t0 t2 dt y0_0_0 theta v_0_0 dW0_0_0 dW1_0_0 U0_0_0 U1_0_0 A0_0_0_0 A1_0_0_0 = a7
-  generalize Gen.grad_log_ode_s_diagonal_11_g_d1_b39451c7c697 f f_d1 f_d2 g g_d1 g_d2 t0 t2 dt y0_0_0 theta v_0_0 dW0_0_0 dW1_0_0 U0_0_0 U1_0_0 A0_0_0_0 A1_0_0_0 = a8
-  generalize Gen.grad_log_ode_s_diagonal_11_g_d1_d76ea1a1c502 f f_d1 f_d2 g g_d1 g_d2 t0 t2 dt y0_0_0 theta v_0_0 dW0_0_0 dW1_0_0 U0_0_0 U1_0_0 A0_0_0_0 A1_0_0_0 = a9
-  generalize Gen.grad_log_ode_s_diagonal_11_g_d2_39921a596628 f f_d1 f_d2 g g_d1 g_d2 t0 t2 dt y0_0_0 theta v_0_0 dW0_0_0 dW1_0_0 U0_0_0 U1_0_0 A0_0_0_0 A1_0_0_0 = a10
-  generalize Gen.grad_log_ode_s_diagonal_11_g_d2_722b7a6bbfae f f_d1 f_d2 g g_d1 g_d2 t0 t2 dt y0_0_0 theta v_0_0 dW0_0_0 dW1_0_0 U0_0_0 U1_0_0 A0_0_0_0 A1_0_0_0 = a11
-  generalize Gen.grad_log_ode_s_diagonal_11_g_d2_8f2c51adb79d f f_d1 f_d2 g g_d1 g_d2 t0 t2 dt y0_0_0 theta v_0_0 dW0_0_0 dW1_0_0 U0_0_0 U1_0_0 A0_0_0_0 A1_0_0_0 = a12
-  generalize Gen.grad_log_ode_s_diagonal_11_g_d2_e3437f9b71a5 f f_d1 f_d2 g g_d1 g_d2 t0 t2 dt y0_0_0 theta v_0_0 dW0_0_0 dW1_0_0 U0_0_0 U1_0_0 A0_0_0_0 A1_0_0_0 = a13
+/-- `gradp_midpoint_s_diagonal_11`: backprop `gth` = forward derivative `tth` -/
+theorem gradp_midpoint_s_diagonal_11_gth  (f : K → K → K → K) (f_d1 : K → K → K → K) (f_d2 : K → K → K → K) (g : K → K → K → K) (g_d1 : K → K → K → K) (g_d2 : K → K → K → K) (t0 t2 dt y0_0_0 theta v_0_0 dW0_0_0 dW1_0_0 : K) :
+    Gen.gradp_midpoint_s_diagonal_11_gth f f_d1 f_d2 g g_d1 g_d2 t0 t2 dt y0_0_0 theta v_0_0 dW0_0_0 dW1_0_0 = Gen.gradp_midpoint_s_diagonal_11_tth f f_d1 f_d2 g g_d1 g_d2 t0 t2 dt y0_0_0 theta v_0_0 dW0_0_0 dW1_0_0 := by
+  simp only [Gen.gradp_midpoint_s_diagonal_11_gth, Gen.gradp_midpoint_s_diagonal_11_tth]
+  generalize Gen.gradp_midpoint_s_diagonal_11_f_d1_5ee6dd087015 f f_d1 f_d2 g g_d1 g_d2 t0 t2 dt y0_0_0 theta v_0_0 dW0_0_0 dW1_0_0 = a0
+  generalize Gen.gradp_midpoint_s_diagonal_11_f_d1_703972b470e0 f f_d1 f_d2 g g_d1 g_d2 t0 t2 dt y0_0_0 theta v_0_0 dW0_0_0 dW1_0_0 = a1
+  generalize Gen.gradp_midpoint_s_diagonal_11_f_d1_ea194427e5d2 f f_d1 f_d2 g g_d1 g_d2 t0 t2 dt y0_0_0 theta v_0_0 dW0_0_0 dW1_0_0 = a2
+  generalize Gen.gradp_midpoint_s_diagonal_11_f_d2_0b924ab0a277 f f_d1 f_d2 g g_d1 g_d2 t0 t2 dt y0_0_0 theta v_0_0 dW0_0_0 dW1_0_0 = a3
+  generalize Gen.gradp_midpoint_s_diagonal_11_f_d2_75ad011491cf f f_d1 f_d2 g g_d1 g_d2 t0 t2 dt y0_0_0 theta v_0_0 dW0_0_0 dW1_0_0 = a4
+  generalize Gen.gradp_midpoint_s_diagonal_11_f_d2_7af3983cc4c0 f f_d1 f_d2 g g_d1 g_d2 t0 t2 dt y0_0_0 theta v_0_0 dW0_0_0 dW1_0_0 = a5
+  generalize Gen.gradp_midpoint_s_diagonal_11_f_d2_d7cbc9408b90 f f_d1 f_d2 g g_d1 g_d2 t0 t2 dt y0_0_0 theta v_0_0 dW0_0_0 dW1_0_0 = a6
+  generalize Gen.gradp_midpoint_s_diagonal_11_g_d1_4cebf89ea8f9 f f_d1 f_d2 g g_d1 g_d2 t0 t2 dt y0_0_0 theta v_0_0 dW0_0_0 dW1_0_0 = a7
+  generalize Gen.gradp_midpoint_s_diagonal_11_g_d1_6efd91c6bd6e f f_d1 f_d2 g g_d1 g_d2 t0 t2 dt y0_0_0 theta v_0_0 dW0_0_0 dW1_0_0 = a8
+  generalize Gen.gradp_midpoint_s_diagonal_11_g_d1_76b5237ed2e6 f f_d1 f_d2 g g_d1 g_d2 t0 t2 dt y0_0_0 theta v_0_0 dW0_0_0 dW1_0_0 = a9
+  generalize Gen.gradp_midpoint_s_diagonal_11_g_d2_722b7a6bbfae f f_d1 f_d2 g g_d1 g_d2 t0 t2 dt y0_0_0 theta v_0_0 dW0_0_0 dW1_0_0 = a10
+  generalize Gen.gradp_midpoint_s_diagonal_11_g_d2_971f06219250 f f_d1 f_d2 g g_d1 g_d2 t0 t2 dt y0_0_0 theta v_0_0 dW0_0_0 dW1_0_0 = a11
+  generalize Gen.gradp_midpoint_s_diagonal_11_g_d2_e3437f9b71a5 f f_d1 f_d2 g g_d1 g_d2 t0 t2 dt y0_0_0 theta v_0_0 dW0_0_0 dW1_0_0 = a12
+  generalize Gen.gradp_midpoint_s_diagonal_11_g_d2_ee9a050cb9fa f f_d1 f_d2 g g_d1 g_d2 t0 t2 dt y0_0_0 theta v_0_0 dW0_0_0 dW1_0_0 = a13
   ring
 
 set_option maxHeartbeats 4000000 in
-/-- `grad_reversible_heun_s_scalar_11`: backprop `gy_0_0` = forward derivative `ty_0_0` -/
-theorem grad_reversible_heun_s_scalar_11_gy_0_0  (f : K → K → K → K) (f_d1 : K → K → K → K) (f_d2 : K → K → K → K) (g : K → K → K → K) (g_d1 : K → K → K → K) (g_d2 : K → K → K → K) (t0 t2 dt y0_0_0 theta v_0_0 dW0_0_0 dW1_0_0 : K) :
-    Gen.grad_reversible_heun_s_scalar_11_gy_0_0 f f_d1 f_d2 g g_d1 g_d2 t0 t2 dt y0_0_0 theta v_0_0 dW0_0_0 dW1_0_0 = Gen.grad_reversible_heun_s_scalar_11_ty_0_0 f f_d1 f_d2 g g_d1 g_d2 t0 t2 dt y0_0_0 theta v_0_0 dW0_0_0 dW1_0_0 := by
-  simp only [Gen.grad_reversible_heun_s_scalar_11_gy_0_0, Gen.grad_reversible_heun_s_scalar_11_ty_0_0]
-  generalize Gen.grad_reversible_heun_s_scalar_11_f_d1_668ff2e067df f f_d1 f_d2 g g_d1 g_d2 t0 t2 dt y0_0_0 theta v_0_0 dW0_0_0 dW1_0_0 = a0
-  generalize Gen.grad_reversible_heun_s_scalar_11_f_d1_7d8b6bbb9a6e f f_d1 f_d2 g g_d1 g_d2 t0 t2 dt y0_0_0 theta v_0_0 dW0_0_0 dW1_0_0 = a1
-  generalize Gen.grad_reversible_heun_s_scalar_11_f_d1_b39c2b677c13 f f_d1 f_d2 g g_d1 g_d2 t0 t2 dt y0_0_0 theta v_0_0 dW0_0_0 dW1_0_0 = a2
-  generalize Gen.grad_reversible_heun_s_scalar_11_g_d1_09229750873c f f_d1 f_d2 g g_d1 g_d2 t0 t2 dt y0_0_0 theta v_0_0 dW0_0_0 dW1_0_0 = a3
-  generalize Gen.grad_reversible_heun_s_scalar_11_g_d1_18d452194dca f f_d1 f_d2 g g_d1 g_d2 t0 t2 dt y0_0_0 theta v_0_0 dW0_0_0 dW1_0_0 = a4
-  generalize Gen.grad_reversible_heun_s_scalar_11_g_d1_ddd0c5e556e2 f f_d1 f_d2 g g_d1 g_d2 t0 t2 dt y0_0_0 theta v_0_0 dW0_0_0 dW1_0_0 = a5
+/-- `gradp_midpoint_s_general_11`: backprop `gth` = forward derivative `tth` -/
+theorem gradp_midpoint_s_general_11_gth  (f : K → K → K → K) (f_d1 : K → K → K → K) (f_d2 : K → K → K → K) (g : K → K → K → K) (g_d1 : K → K → K → K) (g_d2 : K → K → K → K) (t0 t2 dt y0_0_0 theta v_0_0 dW0_0_0 dW1_0_0 : K) :
+    Gen.gradp_midpoint_s_general_11_gth f f_d1 f_d2 g g_d1 g_d2 t0 t2 dt y0_0_0 theta v_0_0 dW0_0_0 dW1_0_0 = Gen.gradp_midpoint_s_general_11_tth f f_d1 f_d2 g g_d1 g_d2 t0 t2 dt y0_0_0 theta v_0_0 dW0_0_0 dW1_0_0 := by
+  simp only [Gen.gradp_midpoint_s_general_11_gth, Gen.gradp_midpoint_s_general_11_tth]
+  generalize Gen.gradp_midpoint_s_general_11_f_d1_5ee6dd087015 f f_d1 f_d2 g g_d1 g_d2 t0 t2 dt y0_0_0 theta v_0_0 dW0_0_0 dW1_0_0 = a0
+  generalize Gen.gradp_midpoint_s_general_11_f_d1_703972b470e0 f f_d1 f_d2 g g_d1 g_d2 t0 t2 dt y0_0_0 theta v_0_0 dW0_0_0 dW1_0_0 = a1
+  generalize Gen.gradp_midpoint_s_general_11_f_d1_ea194427e5d2 f f_d1 f_d2 g g_d1 g_d2 t0 t2 dt y0_0_0 theta v_0_0 dW0_0_0 dW1_0_0 = a2
+  generalize Gen.gradp_midpoint_s_general_11_f_d2_0b924ab0a277 f f_d1 f_d2 g g_d1 g_d2 t0 t2 dt y0_0_0 theta v_0_0 dW0_0_0 dW1_0_0 = a3
+  generalize Gen.gradp_midpoint_s_general_11_f_d2_75ad011491cf f f_d1 f_d2 g g_d1 g_d2 t0 t2 dt y0_0_0 theta v_0_0 dW0_0_0 dW1_0_0 = a4
+  generalize Gen.gradp_midpoint_s_general_11_f_d2_7af3983cc4c0 f f_d1 f_d2 g g_d1 g_d2 t0 t2 dt y0_0_0 theta v_0_0 dW0_0_0 dW1_0_0 = a5
+  generalize Gen.gradp_midpoint_s_general_11_f_d2_d7cbc9408b90 f f_d1 f_d2 g g_d1 g_d2 t0 t2 dt y0_0_0 theta v_0_0 dW0_0_0 dW1_0_0 = a6
+  generalize Gen.gradp_midpoint_s_general_11_g_d1_4cebf89ea8f9 f f_d1 f_d2 g g_d1 g_d2 t0 t2 dt y0_0_0 theta v_0_0 dW0_0_0 dW1_0_0 = a7
+  generalize Gen.gradp_midpoint_s_general_11_g_d1_6efd91c6bd6e f f_d1 f_d2 g g_d1 g_d2 t0 t2 dt y0_0_0 theta v_0_0 dW0_0_0 dW1_0_0 = a8
+  generalize Gen.gradp_midpoint_s_general_11_g_d1_76b5237ed2e6 f f_d1 f_d2 g g_d1 g_d2 t0 t2 dt y0_0_0 theta v_0_0 dW0_0_0 dW1_0_0 = a9
+  generalize Gen.gradp_midpoint_s_general_11_g_d2_722b7a6bbfae f f_d1 f_d2 g g_d1 g_d2 t0 t2 dt y0_0_0 theta v_0_0 dW0_0_0 dW1_0_0 = a10
+  generalize Gen.gradp_midpoint_s_general_11_g_d2_971f06219250 f f_d1 f_d2 g g_d1 g_d2 t0 t2 dt y0_0_0 theta v_0_0 dW0_0_0 dW1_0_0 = a11
+  generalize Gen.gradp_midpoint_s_general_11_g_d2_e3437f9b71a5 f f_d1 f_d2 g g_d1 g_d2 t0 t2 dt y0_0_0 theta v_0_0 dW0_0_0 dW1_0_0 = a12
+  generalize Gen.gradp_midpoint_s_general_11_g_d2_ee9a050cb9fa f f_d1 f_d2 g g_d1 g_d2 t0 t2 dt y0_0_0 theta v_0_0 dW0_0_0 dW1_0_0 = a13
   ring
 
 set_option maxHeartbeats 4000000 in
-/-- `grad_reversible_heun_s_scalar_11`: backprop `gth` = forward derivative `tth` -/
-theorem grad_reversible_heun_s_scalar_11_gth  (f : K → K → K → K) (f_d1 : K → K → K → K) (f_d2 : K → K → K → K) (g : K → K → K → K) (g_d1 : K → K → K → K) (g_d2 : K → K → K → K) (t0 t2 dt y0_0_0 theta v_0_0 dW0_0_0 dW1_0_0 : K) :
-    Gen.grad_reversible_heun_s_scalar_11_gth f f_d1 f_d2 g g_d1 g_d2 t0 t2 dt y0_0_0 theta v_0_0 dW0_0_0 dW1_0_0 = Gen.grad_reversible_heun_s_scalar_11_tth f f_d1 f_d2 g g_d1 g_d2 t0 t2 dt y0_0_0 theta v_0_0 dW0_0_0 dW1_0_0 := by
-  simp only [Gen.grad_reversible_heun_s_scalar_11_gth, Gen.grad_reversible_heun_s_scalar_11_tth]
-  generalize Gen.grad_reversible_heun_s_scalar_11_f_d1_668ff2e067df f f_d1 f_d2 g g_d1 g_d2 t0 t2 dt y0_0_0 theta v_0_0 dW0_0_0 dW1_0_0 = a0
-  generalize Gen.grad_reversible_heun_s_scalar_11_f_d1_7d8b6bbb9a6e f f_d1 f_d2 g g_d1 g_d2 t0 t2 dt y0_0_0 theta v_0_0 dW0_0_0 dW1_0_0 = a1
-  generalize Gen.grad_reversible_heun_s_scalar_11_f_d2_75ad011491cf f f_d1 f_d2 g g_d1 g_d2 t0 t2 dt y0_0_0 theta v_0_0 dW0_0_0 dW1_0_0 = a2
-  generalize Gen.grad_reversible_heun_s_scalar_11_f_d2_aa59138e4563 f f_d1 f_d2 g g_d1 g_d2 t0 t2 dt y0_0_0 theta v_0_0 dW0_0_0 dW1_0_0 = a3
-  generalize Gen.grad_reversible_heun_s_scalar_11_f_d2_f85d5dcbccb1 f f_d1 f_d2 g g_d1 g_d2 t0 t2 dt y0_0_0 theta v_0_0 dW0_0_0 dW1_0_0 = a4
-  generalize Gen.grad_reversible_heun_s_scalar_11_g_d1_09229750873c f f_d1 f_d2 g g_d1 g_d2 t0 t2 dt y0_0_0 theta v_0_0 dW0_0_0 dW1_0_0 = a5
-  generalize Gen.grad_reversible_heun_s_scalar_11_g_d1_18d452194dca f f_d1 f_d2 g g_d1 g_d2 t0 t2 dt y0_0_0 theta v_0_0 dW0_0_0 dW1_0_0 = a6
-  generalize Gen.grad_reversible_heun_s_scalar_11_g_d2_722b7a6bbfae f f_d1 f_d2 g g_d1 g_d2 t0 t2 dt y0_0_0 theta v_0_0 dW0_0_0 dW1_0_0 = a7
-  generalize Gen.grad_reversible_heun_s_scalar_11_g_d2_72ad817e521d f f_d1 f_d2 g g_d1 g_d2 t0 t2 dt y0_0_0 theta v_0_0 dW0_0_0 dW1_0_0 = a8
-  generalize Gen.grad_reversible_heun_s_scalar_11_g_d2_b5ffc99eee28 f f_d1 f_d2 g g_d1 g_d2 t0 t2 dt y0_0_0 theta v_0_0 dW0_0_0 dW1_0_0 = a9
+/-- `gradp_log_ode_s_scalar_11`: backprop `gth` = forward derivative `tth` -/
+theorem gradp_log_ode_s_scalar_11_gth  (f : K → K → K → K) (f_d1 : K → K → K → K) (f_d2 : K → K → K → K) (g : K → K → K → K) (g_d1 : K → K → K → K) (g_d2 : K → K → K → K) (t0 t2 dt y0_0_0 theta v_0_0 dW0_0_0 dW1_0_0 U0_0_0 U1_0_0 A0_0_0_0 A1_0_0_0 : K) :
+    Gen.gradp_log_ode_s_scalar_11_gth f f_d1 f_d2 g g_d1 g_d2 t0 t2 dt y0_0_0 theta v_0_0 dW0_0_0 dW1_0_0 U0_0_0 U1_0_0 A0_0_0_0 A1_0_0_0 = Gen.gradp_log_ode_s_scalar_11_tth f f_d1 f_d2 g g_d1 g_d2 t0 t2 dt y0_0_0 theta v_0_0 dW0_0_0 dW1_0_0 U0_0_0 U1_0_0 A0_0_0_0 A1_0_0_0 := by
+  simp only [Gen.gradp_log_ode_s_scalar_11_gth, Gen.gradp_log_ode_s_scalar_11_tth]
+  generalize Gen.gradp_log_ode_s_scalar_11_f_d1_aa6e56519ae1 f f_d1 f_d2 g g_d1 g_d2 t0 t2 dt y0_0_0 theta v_0_0 dW0_0_0 dW1_0_0 U0_0_0 U1_0_0 A0_0_0_0 A1_0_0_0 = a0
+  generalize Gen.gradp_log_ode_s_scalar_11_f_d1_c2712a6d7499 f f_d1 f_d2 g g_d1 g_d2 t0 t2 dt y0_0_0 theta v_0_0 dW0_0_0 dW1_0_0 U0_0_0 U1_0_0 A0_0_0_0 A1_0_0_0 = a1
+  generalize Gen.gradp_log_ode_s_scalar_11_f_d1_ea194427e5d2 f f_d1 f_d2 g g_d1 g_d2 t0 t2 dt y0_0_0 theta v_0_0 dW0_0_0 dW1_0_0 U0_0_0 U1_0_0 A0_0_0_0 A1_0_0_0 = a2
+  generalize Gen.gradp_log_ode_s_scalar_11_f_d2_6bf883ebc92c f f_d1 f_d2 g g_d1 g_d2 t0 t2 dt y0_0_0 theta v_0_0 dW0_0_0 dW1_0_0 U0_0_0 U1_0_0 A0_0_0_0 A1_0_0_0 = a3
+  generalize Gen.gradp_log_ode_s_scalar_11_f_d2_75ad011491cf f f_d1 f_d2 g g_d1 g_d2 t0 t2 dt y0_0_0 theta v_0_0 dW0_0_0 dW1_0_0 U0_0_0 U1_0_0 A0_0_0_0 A1_0_0_0 = a4
+  generalize Gen.gradp_log_ode_s_scalar_11_f_d2_9f37c3dc046f f f_d1 f_d2 g g_d1 g_d2 t0 t2 dt y0_0_0 theta v_0_0 dW0_0_0 dW1_0_0 U0_0_0 U1_0_0 A0_0_0_0 A1_0_0_0 = a5
+  generalize Gen.gradp_log_ode_s_scalar_11_f_d2_d7cbc9408b90 f f_d1 f_d2 g g_d1 g_d2 t0 t2 dt y0_0_0 theta v_0_0 dW0_0_0 dW1_0_0 U0_0_0 U1_0_0 A0_0_0_0 A1_0_0_0 = a6
+  generalize Gen.gradp_log_ode_s_scalar_11_g_d1_76b5237ed2e6 f f_d1 f_d2 g g_d1 g_d2 t0 t2 dt y0_0_0 theta v_0_0 dW0_0_0 dW1_0_0 U0_0_0 U1_0_0 A0_0_0_0 A1_0_0_0 = a7
+  generalize Gen.gradp_log_ode_s_scalar_11_g_d1_b39451c7c697 f f_d1 f_d2 g g_d1 g_d2 t0 t2 dt y0_0_0 theta v_0_0 dW0_0_0 dW1_0_0 U0_0_0 U1_0_0 A0_0_0_0 A1_0_0_0 = a8
+  generalize Gen.gradp_log_ode_s_scalar_11_g_d1_d76ea1a1c502 f f_d1 f_d2 g g_d1 g_d2 t0 t2 dt y0_0_0 theta v_0_0 dW0_0_0 dW1_0_0 U0_0_0 U1_0_0 A0_0_0_0 A1_0_0_0 = a9
+  generalize Gen.gradp_log_ode_s_scalar_11_g_d2_39921a596628 f f_d1 f_d2 g g_d1 g_d2 t0 t2 dt y0_0_0 theta v_0_0 dW0_0_0 dW1_0_0 U0_0_0 U1_0_0 A0_0_0_0 A1_0_0_0 = a10
+  generalize Gen.gradp_log_ode_s_scalar_11_g_d2_722b7a6bbfae f f_d1 f_d2 g g_d1 g_d2 t0 t2 dt y0_0_0 theta v_0_0 dW0_0_0 dW1_0_0 U0_0_0 U1_0_0 A0_0_0_0 A1_0_0_0 = a11
+  generalize Gen.gradp_log_ode_s_scalar_11_g_d2_8f2c51adb79d f f_d1 f_d2 g g_d1 g_d2 t0 t2 dt y0_0_0 theta v_0_0 dW0_0_0 dW1_0_0 U0_0_0 U1_0_0 A0_0_0_0 A1_0_0_0 = a12
+  generalize Gen.gradp_log_ode_s_scalar_11_g_d2_e3437f9b71a5 f f_d1 f_d2 g g_d1 g_d2 t0 t2 dt y0_0_0 theta v_0_0 dW0_0_0 dW1_0_0 U0_0_0 U1_0_0 A0_0_0_0 A1_0_0_0 = a13
   ring
 
 set_option maxHeartbeats 4000000 in
-/-- `grad_reversible_heun_s_general_22`: backprop `gy_0_0` = forward derivative `ty_0_0` -/
-theorem grad_reversible_heun_s_general_22_gy_0_0  (f0 : K → K → K → K → K) (f0_d1 : K → K → K → K → K) (f0_d2 : K → K → K → K → K) (f0_d3 : K → K → K → K → K) (f1 : K → K → K → K → K) (f1_d1 : K → K → K → K → K) (f1_d2 : K → K → K → K → K) (f1_d3 : K → K → K → K → K) (g00 : K → K → K → K → K) (g00_d1 : K → K → K → K → K) (g00_d2 : K → K → K → K → K) (g00_d3 : K → K → K → K → K) (g01 : K → K → K → K → K) (g01_d1 : K → K → K → K → K) (g01_d2 : K → K → K → K → K) (g01_d3 : K → K → K → K → K) (g10 : K → K → K → K → K) (g10_d1 : K → K → K → K → K) (g10_d2 : K → K → K → K → K) (g10_d3 : K → K → K → K → K) (g11 : K → K → K → K → K) (g11_d1 : K → K → K → K → K) (g11_d2 : K → K → K → K → K) (g11_d3 : K → K → K → K → K) (t0 t2 dt y0_0_0 y0_0_1 theta v_0_0 v_0_1 dW0_0_0 dW0_0_1 : K) :
-    Gen.grad_reversible_heun_s_general_22_gy_0_0 f0 f0_d1 f0_d2 f0_d3 f1 f1_d1 f1_d2 f1_d3 g00 g00_d1 g00_d2 g00_d3 g01 g01_d1 g01_d2 g01_d3 g10 g10_d1 g10_d2 g10_d3 g11 g11_d1 g11_d2 g11_d3 t0 t2 dt y0_0_0 y0_0_1 theta v_0_0 v_0_1 dW0_0_0 dW0_0_1 = Gen.grad_reversible_heun_s_general_22_ty_0_0 f0 f0_d1 f0_d2 f0_d3 f1 f1_d1 f1_d2 f1_d3 g00 g00_d1 g00_d2 g00_d3 g01 g01_d1 g01_d2 g01_d3 g10 g10_d1 g10_d2 g10_d3 g11 g11_d1 g11_d2 g11_d3 t0 t2 dt y0_0_0 y0_0_1 theta v_0_0 v_0_1 dW0_0_0 dW0_0_1 := by
-  simp only [Gen.grad_reversible_heun_s_general_22_gy_0_0, Gen.grad_reversible_heun_s_general_22_ty_0_0]
-  generalize Gen.grad_reversible_heun_s_general_22_f0_d1_7762e1f68fca f0 f0_d1 f0_d2 f0_d3 f1 f1_d1 f1_d2 f1_d3 g00 g00_d1 g00_d2 g00_d3 g01 g01_d1 g01_d2 g01_d3 g10 g10_d1 g10_d2 g10_d3 g11 g11_d1 g11_d2 g11_d3 t0 t2 dt y0_0_0 y0_0_1 theta v_0_0 v_0_1 dW0_0_0 dW0_0_1 = a0
-  generalize Gen.grad_reversible_heun_s_general_22_f0_d1_77e5c7a2795b f0 f0_d1 f0_d2 f0_d3 f1 f1_d1 f1_d2 f1_d3 g00 g00_d1 g00_d2 g00_d3 g01 g01_d1 g01_d2 g01_d3 g10 g10_d1 g10_d2 g10_d3 g11 g11_d1 g11_d2 g11_d3 t0 t2 dt y0_0_0 y0_0_1 theta v_0_0 v_0_1 dW0_0_0 dW0_0_1 = a1
-  generalize Gen.grad_reversible_heun_s_general_22_f0_d2_55345f65df34 f0 f0_d1 f0_d2 f0_d3 f1 f1_d1 f1_d2 f1_d3 g00 g00_d1 g00_d2 g00_d3 g01 g01_d1 g01_d2 g01_d3 g10 g10_d1 g10_d2 g10_d3 g11 g11_d1 g11_d2 g11_d3 t0 t2 dt y0_0_0 y0_0_1 theta v_0_0 v_0_1 dW0_0_0 dW0_0_1 = a2
-  generalize Gen.grad_reversible_heun_s_general_22_f1_d1_1deef72810c1 f0 f0_d1 f0_d2 f0_d3 f1 f1_d1 f1_d2 f1_d3 g00 g00_d1 g00_d2 g00_d3 g01 g01_d1 g01_d2 g01_d3 g10 g10_d1 g10_d2 g10_d3 g11 g11_d1 g11_d2 g11_d3 t0 t2 dt y0_0_0 y0_0_1 theta v_0_0 v_0_1 dW0_0_0 dW0_0_1 = a3
-  generalize Gen.grad_reversible_heun_s_general_22_f1_d1_b2b28c391301 f0 f0_d1 f0_d2 f0_d3 f1 f1_d1 f1_d2 f1_d3 g00 g00_d1 g00_d2 g00_d3 g01 g01_d1 g01_d2 g01_d3 g10 g10_d1 g10_d2 g10_d3 g11 g11_d1 g11_d2 g11_d3 t0 t2 dt y0_0_0 y0_0_1 theta v_0_0 v_0_1 dW0_0_0 dW0_0_1 = a4
-  generalize Gen.grad_reversible_heun_s_general_22_f1_d2_a161aedeeb25 f0 f0_d1 f0_d2 f0_d3 f1 f1_d1 f1_d2 f1_d3 g00 g00_d1 g00_d2 g00_d3 g01 g01_d1 g01_d2 g01_d3 g10 g10_d1 g10_d2 g10_d3 g11 g11_d1 g11_d2 g11_d3 t0 t2 dt y0_0_0 y0_0_1 theta v_0_0 v_0_1 dW0_0_0 dW0_0_1 = a5
-  generalize Gen.grad_reversible_heun_s_general_22_g00_d1_99e549f5f236 f0 f0_d1 f0_d2 f0_d3 f1 f1_d1 f1_d2 f1_d3 g00 g00_d1 g00_d2 g00_d3 g01 g01_d1 g01_d2 g01_d3 g10 g10_d1 g10_d2 g10_d3 g11 g11_d1 g11_d2 g11_d3 t0 t2 dt y0_0_0 y0_0_1 theta v_0_0 v_0_1 dW0_0_0 dW0_0_1 = a6
-  generalize Gen.grad_reversible_heun_s_general_22_g00_d1_d045b0262d93 f0 f0_d1 f0_d2 f0_d3 f1 f1_d1 f1_d2 f1_d3 g00 g00_d1 g00_d2 g00_d3 g01 g01_d1 g01_d2 g01_d3 g10 g10_d1 g10_d2 g10_d3 g11 g11_d1 g11_d2 g11_d3 t0 t2 dt y0_0_0 y0_0_1 theta v_0_0 v_0_1 dW0_0_0 dW0_0_1 = a7
-  generalize Gen.grad_reversible_heun_s_general_22_g00_d2_045eda3b0fd9 f0 f0_d1 f0_d2 f0_d3 f1 f1_d1 f1_d2 f1_d3 g00 g00_d1 g00_d2 g00_d3 g01 g01_d1 g01_d2 g01_d3 g10 g10_d1 g10_d2 g10_d3 g11 g11_d1 g11_d2 g11_d3 t0 t2 dt y0_0_0 y0_0_1 theta v_0_0 v_0_1 dW0_0_0 dW0_0_1 = a8
-  generalize Gen.grad_reversible_heun_s_general_22_g01_d1_096aa254ca4c f0 f0_d1 f0_d2 f0_d3 f1 f1_d1 f1_d2 f1_d3 g00 g00_d1 g00_d2 g00_d3 g01 g01_d1 g01_d2 g01_d3 g10 g10_d1 g10_d2 g10_d3 g11 g11_d1 g11_d2 g11_d3 t0 t2 dt y0_0_0 y0_0_1 theta v_0_0 v_0_1 dW0_0_0 dW0_0_1 = a9
-  generalize Gen.grad_reversible_heun_s_general_22_g01_d1_7592549b1609 f0 f0_d1 f0_d2 f0_d3 f1 f1_d1 f1_d2 f1_d3 g00 g00_d1 g00_d2 g00_d3 g01 g01_d1 g01_d2 g01_d3 g10 g10_d1 g10_d2 g10_d3 g11 g11_d1 g11_d2 g11_d3 t0 t2 dt y0_0_0 y0_0_1 theta v_0_0 v_0_1 dW0_0_0 dW0_0_1 = a10
-  generalize Gen.grad_reversible_heun_s_general_22_g01_d2_605b9285dac6 f0 f0_d1 f0_d2 f0_d3 f1 f1_d1 f1_d2 f1_d3 g00 g00_d1 g00_d2 g00_d3 g01 g01_d1 g01_d2 g01_d3 g10 g10_d1 g10_d2 g10_d3 g11 g11_d1 g11_d2 g11_d3 t0 t2 dt y0_0_0 y0_0_1 theta v_0_0 v_0_1 dW0_0_0 dW0_0_1 = a11
-  generalize Gen.grad_reversible_heun_s_general_22_g10_d1_59805037ed9a f0 f0_d1 f0_d2 f0_d3 f1 f1_d1 f1_d2 f1_d3 g00 g00_d1 g00_d2 g00_d3 g01 g01_d1 g01_d2 g01_d3 g10 g10_d1 g10_d2 g10_d3 g11 g11_d1 g11_d2 g11_d3 t0 t2 dt y0_0_0 y0_0_1 theta v_0_0 v_0_1 dW0_0_0 dW0_0_1 = a12
-  generalize Gen.grad_reversible_heun_s_general_22_g10_d1_c8d1a7e0ae0b f0 f0_d1 f0_d2 f0_d3 f1 f1_d1 f1_d2 f1_d3 g00 g00_d1 g00_d2 g00_d3 g01 g01_d1 g01_d2 g01_d3 g10 g10_d1 g10_d2 g10_d3 g11 g11_d1 g11_d2 g11_d3 t0 t2 dt y0_0_0 y0_0_1 theta v_0_0 v_0_1 dW0_0_0 dW0_0_1 = a13
-  generalize Gen.grad_reversible_heun_s_general_22_g10_d2_5ebd58ddec5f f0 f0_d1 f0_d2 f0_d3 f1 f1_d1 f1_d2 f1_d3 g00 g00_d1 g00_d2 g00_d3 g01 g01_d1 g01_d2 g01_d3 g10 g10_d1 g10_d2 g10_d3 g11 g11_d1 g11_d2 g11_d3 t0 t2 dt y0_0_0 y0_0_1 theta v_0_0 v_0_1 dW0_0_0 dW0_0_1 = a14
-  generalize Gen.grad_reversible_heun_s_general_22_g11_d1_29afddc1a6e5 f0 f0_d1 f0_d2 f0_d3 f1 f1_d1 f1_d2 f1_d3 g00 g00_d1 g00_d2 g00_d3 g01 g01_d1 g01_d2 g01_d3 g10 g10_d1 g10_d2 g10_d3 g11 g11_d1 g11_d2 g11_d3 t0 t2 dt y0_0_0 y0_0_1 theta v_0_0 v_0_1 dW0_0_0 dW0_0_1 = a15
-  generalize Gen.grad_reversible_heun_s_general_22_g11_d1_88bd16bfc9a4 f0 f0_d1 f0_d2 f0_d3 f1 f1_d1 f1_d2 f1_d3 g00 g00_d1 g00_d2 g00_d3 g01 g01_d1 g01_d2 g01_d3 g10 g10_d1 g10_d2 g10_d3 g11 g11_d1 g11_d2 g11_d3 t0 t2 dt y0_0_0 y0_0_1 theta v_0_0 v_0_1 dW0_0_0 dW0_0_1 = a16
-  generalize Gen.grad_reversible_heun_s_general_22_g11_d2_73b2ca98aa5f f0 f0_d1 f0_d2 f0_d3 f1 f1_d1 f1_d2 f1_d3 g00 g00_d1 g00_d2 g00_d3 g01 g01_d1 g01_d2 g01_d3 g10 g10_d1 g10_d2 g10_d3 g11 g11_d1 g11_d2 g11_d3 t0 t2 dt y0_0_0 y0_0_1 theta v_0_0 v_0_1 dW0_0_0 dW0_0_1 = a17
+/-- `gradp_reversible_heun_s_additive_11`: backprop `gth` = forward derivative `tth` -/
+theorem gradp_reversible_heun_s_additive_11_gth  (f : K → K → K → K) (f_d1 : K → K → K → K) (f_d2 : K → K → K → K) (g : K → K → K) (g_d1 : K → K → K) (t0 t2 dt y0_0_0 theta v_0_0 dW0_0_0 dW1_0_0 : K) :
+    Gen.gradp_reversible_heun_s_additive_11_gth f f_d1 f_d2 g g_d1 t0 t2 dt y0_0_0 theta v_0_0 dW0_0_0 dW1_0_0 = Gen.gradp_reversible_heun_s_additive_11_tth f f_d1 f_d2 g g_d1 t0 t2 dt y0_0_0 theta v_0_0 dW0_0_0 dW1_0_0 := by
+  simp only [Gen.gradp_reversible_heun_s_additive_11_gth, Gen.gradp_reversible_heun_s_additive_11_tth]
+  generalize Gen.gradp_reversible_heun_s_additive_11_f_d1_c4dfbb087628 f f_d1 f_d2 g g_d1 t0 t2 dt y0_0_0 theta v_0_0 dW0_0_0 dW1_0_0 = a0
+  generalize Gen.gradp_reversible_heun_s_additive_11_f_d1_ecad069d9452 f f_d1 f_d2 g g_d1 t0 t2 dt y0_0_0 theta v_0_0 dW0_0_0 dW1_0_0 = a1
+  generalize Gen.gradp_reversible_heun_s_additive_11_f_d2_09f47b3c4e4e f f_d1 f_d2 g g_d1 t0 t2 dt y0_0_0 theta v_0_0 dW0_0_0 dW1_0_0 = a2
+  generalize Gen.gradp_reversible_heun_s_additive_11_f_d2_75ad011491cf f f_d1 f_d2 g g_d1 t0 t2 dt y0_0_0 theta v_0_0 dW0_0_0 dW1_0_0 = a3
+  generalize Gen.gradp_reversible_heun_s_additive_11_f_d2_a7981309fb8a f f_d1 f_d2 g g_d1 t0 t2 dt y0_0_0 theta v_0_0 dW0_0_0 dW1_0_0 = a4
+  generalize Gen.gradp_reversible_heun_s_additive_11_g_d1_098edafcd8e5 f f_d1 f_d2 g g_d1 t0 t2 dt y0_0_0 theta v_0_0 dW0_0_0 dW1_0_0 = a5
+  generalize Gen.gradp_reversible_heun_s_additive_11_g_d1_39aaf857762f f f_d1 f_d2 g g_d1 t0 t2 dt y0_0_0 theta v_0_0 dW0_0_0 dW1_0_0 = a6
+  generalize Gen.gradp_reversible_heun_s_additive_11_g_d1_3d49352567ba f f_d1 f_d2 g g_d1 t0 t2 dt y0_0_0 theta v_0_0 dW0_0_0 dW1_0_0 = a7
   ring
 
 set_option maxHeartbeats 4000000 in
-/-- `grad_reversible_heun_s_general_22`: backprop `gy_0_1` = forward derivative `ty_0_1` -/
-theorem grad_reversible_heun_s_general_22_gy_0_1  (f0 : K → K → K → K → K) (f0_d1 : K → K → K → K → K) (f0_d2 : K → K → K → K → K) (f0_d3 : K → K → K → K → K) (f1 : K → K → K → K → K) (f1_d1 : K → K → K → K → K) (f1_d2 : K → K → K → K → K) (f1_d3 : K → K → K → K → K) (g00 : K → K → K → K → K) (g00_d1 : K → K → K → K → K) (g00_d2 : K → K → K → K → K) (g00_d3 : K → K → K → K → K) (g01 : K → K → K → K → K) (g01_d1 : K → K → K → K → K) (g01_d2 : K → K → K → K → K) (g01_d3 : K → K → K → K → K) (g10 : K → K → K → K → K) (g10_d1 : K → K → K → K → K) (g10_d2 : K → K → K → K → K) (g10_d3 : K → K → K → K → K) (g11 : K → K → K → K → K) (g11_d1 : K → K → K → K → K) (g11_d2 : K → K → K → K → K) (g11_d3 : K → K → K → K → K) (t0 t2 dt y0_0_0 y0_0_1 theta v_0_0 v_0_1 dW0_0_0 dW0_0_1 : K) :
-    Gen.grad_reversible_heun_s_general_22_gy_0_1 f0 f0_d1 f0_d2 f0_d3 f1 f1_d1 f1_d2 f1_d3 g00 g00_d1 g00_d2 g00_d3 g01 g01_d1 g01_d2 g01_d3 g10 g10_d1 g10_d2 g10_d3 g11 g11_d1 g11_d2 g11_d3 t0 t2 dt y0_0_0 y0_0_1 theta v_0_0 v_0_1 dW0_0_0 dW0_0_1 = Gen.grad_reversible_heun_s_general_22_ty_0_1 f0 f0_d1 f0_d2 f0_d3 f1 f1_d1 f1_d2 f1_d3 g00 g00_d1 g00_d2 g00_d3 g01 g01_d1 g01_d2 g01_d3 g10 g10_d1 g10_d2 g10_d3 g11 g11_d1 g11_d2 g11_d3 t0 t2 dt y0_0_0 y0_0_1 theta v_0_0 v_0_1 dW0_0_0 dW0_0_1 := by
-  simp only [Gen.grad_reversible_heun_s_general_22_gy_0_1, Gen.grad_reversible_heun_s_general_22_ty_0_1]
-  generalize Gen.grad_reversible_heun_s_general_22_f0_d1_77e5c7a2795b f0 f0_d1 f0_d2 f0_d3 f1 f1_d1 f1_d2 f1_d3 g00 g00_d1 g00_d2 g00_d3 g01 g01_d1 g01_d2 g01_d3 g10 g10_d1 g10_d2 g10_d3 g11 g11_d1 g11_d2 g11_d3 t0 t2 dt y0_0_0 y0_0_1 theta v_0_0 v_0_1 dW0_0_0 dW0_0_1 = a0
-  generalize Gen.grad_reversible_heun_s_general_22_f0_d2_55345f65df34 f0 f0_d1 f0_d2 f0_d3 f1 f1_d1 f1_d2 f1_d3 g00 g00_d1 g00_d2 g00_d3 g01 g01_d1 g01_d2 g01_d3 g10 g10_d1 g10_d2 g10_d3 g11 g11_d1 g11_d2 g11_d3 t0 t2 dt y0_0_0 y0_0_1 theta v_0_0 v_0_1 dW0_0_0 dW0_0_1 = a1
-  generalize Gen.grad_reversible_heun_s_general_22_f0_d2_c08f7f271659 f0 f0_d1 f0_d2 f0_d3 f1 f1_d1 f1_d2 f1_d3 g00 g00_d1 g00_d2 g00_d3 g01 g01_d1 g01_d2 g01_d3 g10 g10_d1 g10_d2 g10_d3 g11 g11_d1 g11_d2 g11_d3 t0 t2 dt y0_0_0 y0_0_1 theta v_0_0 v_0_1 dW0_0_0 dW0_0_1 = a2
-  generalize Gen.grad_reversible_heun_s_general_22_f1_d1_b2b28c391301 f0 f0_d1 f0_d2 f0_d3 f1 f1_d1 f1_d2 f1_d3 g00 g00_d1 g00_d2 g00_d3 g01 g01_d1 g01_d2 g01_d3 g10 g10_d1 g10_d2 g10_d3 g11 g11_d1 g11_d2 g11_d3 t0 t2 dt y0_0_0 y0_0_1 theta v_0_0 v_0_1 dW0_0_0 dW0_0_1 = a3
-  generalize Gen.grad_reversible_heun_s_general_22_f1_d2_0cc4972e78ba f0 f0_d1 f0_d2 f0_d3 f1 f1_d1 f1_d2 f1_d3 g00 g00_d1 g00_d2 g00_d3 g01 g01_d1 g01_d2 g01_d3 g10 g10_d1 g10_d2 g10_d3 g11 g11_d1 g11_d2 g11_d3 t0 t2 dt y0_0_0 y0_0_1 theta v_0_0 v_0_1 dW0_0_0 dW0_0_1 = a4
-  generalize Gen.grad_reversible_heun_s_general_22_f1_d2_a161aedeeb25 f0 f0_d1 f0_d2 f0_d3 f1 f1_d1 f1_d2 f1_d3 g00 g00_d1 g00_d2 g00_d3 g01 g01_d1 g01_d2 g01_d3 g10 g10_d1 g10_d2 g10_d3 g11 g11_d1 g11_d2 g11_d3 t0 t2 dt y0_0_0 y0_0_1 theta v_0_0 v_0_1 dW0_0_0 dW0_0_1 = a5
-  generalize Gen.grad_reversible_heun_s_general_22_g00_d1_d045b0262d93 f0 f0_d1 f0_d2 f0_d3 f1 f1_d1 f1_d2 f1_d3 g00 g00_d1 g00_d2 g00_d3 g01 g01_d1 g01_d2 g01_d3 g10 g10_d1 g10_d2 g10_d3 g11 g11_d1 g11_d2 g11_d3 t0 t2 dt y0_0_0 y0_0_1 theta v_0_0 v_0_1 dW0_0_0 dW0_0_1 = a6
-  generalize Gen.grad_reversible_heun_s_general_22_g00_d2_045eda3b0fd9 f0 f0_d1 f0_d2 f0_d3 f1 f1_d1 f1_d2 f1_d3 g00 g00_d1 g00_d2 g00_d3 g01 g01_d1 g01_d2 g01_d3 g10 g10_d1 g10_d2 g10_d3 g11 g11_d1 g11_d2 g11_d3 t0 t2 dt y0_0_0 y0_0_1 theta v_0_0 v_0_1 dW0_0_0 dW0_0_1 = a7
-  generalize Gen.grad_reversible_heun_s_general_22_g00_d2_923f70e91096 f0 f0_d1 f0_d2 f0_d3 f1 f1_d1 f1_d2 f1_d3 g00 g00_d1 g00_d2 g00_d3 g01 g01_d1 g01_d2 g01_d3 g10 g10_d1 g10_d2 g10_d3 g11 g11_d1 g11_d2 g11_d3 t0 t2 dt y0_0_0 y0_0_1 theta v_0_0 v_0_1 dW0_0_0 dW0_0_1 = a8
-  generalize Gen.grad_reversible_heun_s_general_22_g01_d1_096aa254ca4c f0 f0_d1 f0_d2 f0_d3 f1 f1_d1 f1_d2 f1_d3 g00 g00_d1 g00_d2 g00_d3 g01 g01_d1 g01_d2 g01_d3 g10 g10_d1 g10_d2 g10_d3 g11 g11_d1 g11_d2 g11_d3 t0 t2 dt y0_0_0 y0_0_1 theta v_0_0 v_0_1 dW0_0_0 dW0_0_1 = a9
-  generalize Gen.grad_reversible_heun_s_general_22_g01_d2_605b9285dac6 f0 f0_d1 f0_d2 f0_d3 f1 f1_d1 f1_d2 f1_d3 g00 g00_d1 g00_d2 g00_d3 g01 g01_d1 g01_d2 g01_d3 g10 g10_d1 g10_d2 g10_d3 g11 g11_d1 g11_d2 g11_d3 t0 t2 dt y0_0_0 y0_0_1 theta v_0_0 v_0_1 dW0_0_0 dW0_0_1 = a10
-  generalize Gen.grad_reversible_heun_s_general_22_g01_d2_962a65f646b5 f0 f0_d1 f0_d2 f0_d3 f1 f1_d1 f1_d2 f1_d3 g00 g00_d1 g00_d2 g00_d3 g01 g01_d1 g01_d2 g01_d3 g10 g10_d1 g10_d2 g10_d3 g11 g11_d1 g11_d2 g11_d3 t0 t2 dt y0_0_0 y0_0_1 theta v_0_0 v_0_1 dW0_0_0 dW0_0_1 = a11
-  generalize Gen.grad_reversible_heun_s_general_22_g10_d1_c8d1a7e0ae0b f0 f0_d1 f0_d2 f0_d3 f1 f1_d1 f1_d2 f1_d3 g00 g00_d1 g00_d2 g00_d3 g01 g01_d1 g01_d2 g01_d3 g10 g10_d1 g10_d2 g10_d3 g11 g11_d1 g11_d2 g11_d3 t0 t2 dt y0_0_0 y0_0_1 theta v_0_0 v_0_1 dW0_0_0 dW0_0_1 = a12
-  generalize Gen.grad_reversible_heun_s_general_22_g10_d2_5ebd58ddec5f f0 f0_d1 f0_d2 f0_d3 f1 f1_d1 f1_d2 f1_d3 g00 g00_d1 g00_d2 g00_d3 g01 g01_d1 g01_d2 g01_d3 g10 g10_d1 g10_d2 g10_d3 g11 g11_d1 g11_d2 g11_d3 t0 t2 dt y0_0_0 y0_0_1 theta v_0_0 v_0_1 dW0_0_0 dW0_0_1 = a13
-  generalize Gen.grad_reversible_heun_s_general_22_g10_d2_bf171d2ca00a f0 f0_d1 f0_d2 f0_d3 f1 f1_d1 f1_d2 f1_d3 g00 g00_d1 g00_d2 g00_d3 g01 g01_d1 g01_d2 g01_d3 g10 g10_d1 g10_d2 g10_d3 g11 g11_d1 g11_d2 g11_d3 t0 t2 dt y0_0_0 y0_0_1 theta v_0_0 v_0_1 dW0_0_0 dW0_0_1 = a14
-  generalize Gen.grad_reversible_heun_s_general_22_g11_d1_29afddc1a6e5 f0 f0_d1 f0_d2 f0_d3 f1 f1_d1 f1_d2 f1_d3 g00 g00_d1 g00_d2 g00_d3 g01 g01_d1 g01_d2 g01_d3 g10 g10_d1 g10_d2 g10_d3 g11 g11_d1 g11_d2 g11_d3 t0 t2 dt y0_0_0 y0_0_1 theta v_0_0 v_0_1 dW0_0_0 dW0_0_1 = a15
-  generalize Gen.grad_reversible_heun_s_general_22_g11_d2_4d3c1fb23696 f0 f0_d1 f0_d2 f0_d3 f1 f1_d1 f1_d2 f1_d3 g00 g00_d1 g00_d2 g00_d3 g01 g01_d1 g01_d2 g01_d3 g10 g10_d1 g10_d2 g10_d3 g11 g11_d1 g11_d2 g11_d3 t0 t2 dt y0_0_0 y0_0_1 theta v_0_0 v_0_1 dW0_0_0 dW0_0_1 = a16
-  generalize Gen.grad_reversible_heun_s_general_22_g11_d2_73b2ca98aa5f f0 f0_d1 f0_d2 f0_d3 f1 f1_d1 f1_d2 f1_d3 g00 g00_d1 g00_d2 g00_d3 g01 g01_d1 g01_d2 g01_d3 g10 g10_d1 g10_d2 g10_d3 g11 g11_d1 g11_d2 g11_d3 t0 t2 dt y0_0_0 y0_0_1 theta v_0_0 v_0_1 dW0_0_0 dW0_0_1 = a17
+/-- `grad_milstein_i_diagonal_22`: backprop `gth` = forward derivative `tth` -/
+theorem grad_milstein_i_diagonal_22_gth  (f0 : K → K → K → K → K) (f0_d1 : K → K → K → K → K) (f0_d2 : K → K → K → K → K) (f0_d3 : K → K → K → K → K) (f1 : K → K → K → K → K) (f1_d1 : K → K → K → K → K) (f1_d2 : K → K → K → K → K) (f1_d3 : K → K → K → K → K) (g0 : K → K → K → K) (g0_d1 : K → K → K → K) (g0_d11 : K → K → K → K) (g0_d12 : K → K → K → K) (g0_d2 : K → K → K → K) (g1 : K → K → K → K) (g1_d1 : K → K → K → K) (g1_d11 : K → K → K → K) (g1_d12 : K → K → K → K) (g1_d2 : K → K → K → K) (t0 t2 dt y0_0_0 y0_0_1 theta v_0_0 v_0_1 dW0_0_0 dW0_0_1 : K) :
+    Gen.grad_milstein_i_diagonal_22_gth f0 f0_d1 f0_d2 f0_d3 f1 f1_d1 f1_d2 f1_d3 g0 g0_d1 g0_d11 g0_d12 g0_d2 g1 g1_d1 g1_d11 g1_d12 g1_d2 t0 t2 dt y0_0_0 y0_0_1 theta v_0_0 v_0_1 dW0_0_0 dW0_0_1 = Gen.grad_milstein_i_diagonal_22_tth f0 f0_d1 f0_d2 f0_d3 f1 f1_d1 f1_d2 f1_d3 g0 g0_d1 g0_d11 g0_d12 g0_d2 g1 g1_d1 g1_d11 g1_d12 g1_d2 t0 t2 dt y0_0_0 y0_0_1 theta v_0_0 v_0_1 dW0_0_0 dW0_0_1 := by
+  simp only [Gen.grad_milstein_i_diagonal_22_gth, Gen.grad_milstein_i_diagonal_22_tth]
+  generalize Gen.grad_milstein_i_diagonal_22_f0_d3_117f0ace4604 f0 f0_d1 f0_d2 f0_d3 f1 f1_d1 f1_d2 f1_d3 g0 g0_d1 g0_d11 g0_d12 g0_d2 g1 g1_d1 g1_d11 g1_d12 g1_d2 t0 t2 dt y0_0_0 y0_0_1 theta v_0_0 v_0_1 dW0_0_0 dW0_0_1 = a0
+  generalize Gen.grad_milstein_i_diagonal_22_f1_d3_711269134f9c f0 f0_d1 f0_d2 f0_d3 f1 f1_d1 f1_d2 f1_d3 g0 g0_d1 g0_d11 g0_d12 g0_d2 g1 g1_d1 g1_d11 g1_d12 g1_d2 t0 t2 dt y0_0_0 y0_0_1 theta v_0_0 v_0_1 dW0_0_0 dW0_0_1 = a1
+  generalize Gen.grad_milstein_i_diagonal_22_g0_02ad866938a3 f0 f0_d1 f0_d2 f0_d3 f1 f1_d1 f1_d2 f1_d3 g0 g0_d1 g0_d11 g0_d12 g0_d2 g1 g1_d1 g1_d11 g1_d12 g1_d2 t0 t2 dt y0_0_0 y0_0_1 theta v_0_0 v_0_1 dW0_0_0 dW0_0_1 = a2
+  generalize Gen.grad_milstein_i_diagonal_22_g0_d12_b1ef06e66941 f0 f0_d1 f0_d2 f0_d3 f1 f1_d1 f1_d2 f1_d3 g0 g0_d1 g0_d11 g0_d12 g0_d2 g1 g1_d1 g1_d11 g1_d12 g1_d2 t0 t2 dt y0_0_0 y0_0_1 theta v_0_0 v_0_1 dW0_0_0 dW0_0_1 = a3
+  generalize Gen.grad_milstein_i_diagonal_22_g0_d1_221dc0bfff9c f0 f0_d1 f0_d2 f0_d3 f1 f1_d1 f1_d2 f1_d3 g0 g0_d1 g0_d11 g0_d12 g0_d2 g1 g1_d1 g1_d11 g1_d12 g1_d2 t0 t2 dt y0_0_0 y0_0_1 theta v_0_0 v_0_1 dW0_0_0 dW0_0_1 = a4
+  generalize Gen.grad_milstein_i_diagonal_22_g0_d2_9e5661dde357 f0 f0_d1 f0_d2 f0_d3 f1 f1_d1 f1_d2 f1_d3 g0 g0_d1 g0_d11 g0_d12 g0_d2 g1 g1_d1 g1_d11 g1_d12 g1_d2 t0 t2 dt y0_0_0 y0_0_1 theta v_0_0 v_0_1 dW0_0_0 dW0_0_1 = a5
+  generalize Gen.grad_milstein_i_diagonal_22_g1_77f4360c494c f0 f0_d1 f0_d2 f0_d3 f1 f1_d1 f1_d2 f1_d3 g0 g0_d1 g0_d11 g0_d12 g0_d2 g1 g1_d1 g1_d11 g1_d12 g1_d2 t0 t2 dt y0_0_0 y0_0_1 theta v_0_0 v_0_1 dW0_0_0 dW0_0_1 = a6
+  generalize Gen.grad_milstein_i_diagonal_22_g1_d12_1fdc91638d08 f0 f0_d1 f0_d2 f0_d3 f1 f1_d1 f1_d2 f1_d3 g0 g0_d1 g0_d11 g0_d12 g0_d2 g1 g1_d1 g1_d11 g1_d12 g1_d2 t0 t2 dt y0_0_0 y0_0_1 theta v_0_0 v_0_1 dW0_0_0 dW0_0_1 = a7
+  generalize Gen.grad_milstein_i_diagonal_22_g1_d1_236c79beb279 f0 f0_d1 f0_d2 f0_d3 f1 f1_d1 f1_d2 f1_d3 g0 g0_d1 g0_d11 g0_d12 g0_d2 g1 g1_d1 g1_d11 g1_d12 g1_d2 t0 t2 dt y0_0_0 y0_0_1 theta v_0_0 v_0_1 dW0_0_0 dW0_0_1 = a8
+  generalize Gen.grad_milstein_i_diagonal_22_g1_d2_95363bed15cb f0 f0_d1 f0_d2 f0_d3 f1 f1_d1 f1_d2 f1_d3 g0 g0_d1 g0_d11 g0_d12 g0_d2 g1 g1_d1 g1_d11 g1_d12 g1_d2 t0 t2 dt y0_0_0 y0_0_1 theta v_0_0 v_0_1 dW0_0_0 dW0_0_1 = a9
   ring
 
 set_option maxHeartbeats 4000000 in
-/-- `grad_reversible_heun_s_general_22`: backprop `gth` = forward derivative `tth` -/
-theorem grad_reversible_heun_s_general_22_gth  (f0 : K → K → K → K → K) (f0_d1 : K → K → K → K → K) (f0_d2 : K → K → K → K → K) (f0_d3 : K → K → K → K → K) (f1 : K → K → K → K → K) (f1_d1 : K → K → K → K → K) (f1_d2 : K → K → K → K → K) (f1_d3 : K → K → K → K → K) (g00 : K → K → K → K → K) (g00_d1 : K → K → K → K → K) (g00_d2 : K → K → K → K → K) (g00_d3 : K → K → K → K → K) (g01 : K → K → K → K → K) (g01_d1 : K → K → K → K → K) (g01_d2 : K → K → K → K → K) (g01_d3 : K → K → K → K → K) (g10 : K → K → K → K → K) (g10_d1 : K → K → K → K → K) (g10_d2 : K → K → K → K → K) (g10_d3 : K → K → K → K → K) (g11 : K → K → K → K → K) (g11_d1 : K → K → K → K → K) (g11_d2 : K → K → K → K → K) (g11_d3 : K → K → K → K → K) (t0 t2 dt y0_0_0 y0_0_1 theta v_0_0 v_0_1 dW0_0_0 dW0_0_1 : K) :
-    Gen.grad_reversible_heun_s_general_22_gth f0 f0_d1 f0_d2 f0_d3 f1 f1_d1 f1_d2 f1_d3 g00 g00_d1 g00_d2 g00_d3 g01 g01_d1 g01_d2 g01_d3 g10 g10_d1 g10_d2 g10_d3 g11 g11_d1 g11_d2 g11_d3 t0 t2 dt y0_0_0 y0_0_1 theta v_0_0 v_0_1 dW0_0_0 dW0_0_1 = Gen.grad_reversible_heun_s_general_22_tth f0 f0_d1 f0_d2 f0_d3 f1 f1_d1 f1_d2 f1_d3 g00 g00_d1 g00_d2 g00_d3 g01 g01_d1 g01_d2 g01_d3 g10 g10_d1 g10_d2 g10_d3 g11 g11_d1 g11_d2 g11_d3 t0 t2 dt y0_0_0 y0_0_1 theta v_0_0 v_0_1 dW0_0_0 dW0_0_1 := by
-  simp only [Gen.grad_reversible_heun_s_general_22_gth, Gen.grad_reversible_heun_s_general_22_tth]
-  generalize Gen.grad_reversible_heun_s_general_22_f0_d1_77e5c7a2795b f0 f0_d1 f0_d2 f0_d3 f1 f1_d1 f1_d2 f1_d3 g00 g00_d1 g00_d2 g00_d3 g01 g01_d1 g01_d2 g01_d3 g10 g10_d1 g10_d2 g10_d3 g11 g11_d1 g11_d2 g11_d3 t0 t2 dt y0_0_0 y0_0_1 theta v_0_0 v_0_1 dW0_0_0 dW0_0_1 = a0
-  generalize Gen.grad_reversible_heun_s_general_22_f0_d2_55345f65df34 f0 f0_d1 f0_d2 f0_d3 f1 f1_d1 f1_d2 f1_d3 g00 g00_d1 g00_d2 g00_d3 g01 g01_d1 g01_d2 g01_d3 g10 g10_d1 g10_d2 g10_d3 g11 g11_d1 g11_d2 g11_d3 t0 t2 dt y0_0_0 y0_0_1 theta v_0_0 v_0_1 dW0_0_0 dW0_0_1 = a1
-  generalize Gen.grad_reversible_heun_s_general_22_f0_d3_117f0ace4604 f0 f0_d1 f0_d2 f0_d3 f1 f1_d1 f1_d2 f1_d3 g00 g00_d1 g00_d2 g00_d3 g01 g01_d1 g01_d2 g01_d3 g10 g10_d1 g10_d2 g10_d3 g11 g11_d1 g11_d2 g11_d3 t0 t2 dt y0_0_0 y0_0_1 theta v_0_0 v_0_1 dW0_0_0 dW0_0_1 = a2
-  generalize Gen.grad_reversible_heun_s_general_22_f0_d3_bd942d2575cd f0 f0_d1 f0_d2 f0_d3 f1 f1_d1 f1_d2 f1_d3 g00 g00_d1 g00_d2 g00_d3 g01 g01_d1 g01_d2 g01_d3 g10 g10_d1 g10_d2 g10_d3 g11 g11_d1 g11_d2 g11_d3 t0 t2 dt y0_0_0 y0_0_1 theta v_0_0 v_0_1 dW0_0_0 dW0_0_1 = a3
-  generalize Gen.grad_reversible_heun_s_general_22_f1_d1_b2b28c391301 f0 f0_d1 f0_d2 f0_d3 f1 f1_d1 f1_d2 f1_d3 g00 g00_d1 g00_d2 g00_d3 g01 g01_d1 g01_d2 g01_d3 g10 g10_d1 g10_d2 g10_d3 g11 g11_d1 g11_d2 g11_d3 t0 t2 dt y0_0_0 y0_0_1 theta v_0_0 v_0_1 dW0_0_0 dW0_0_1 = a4
-  generalize Gen.grad_reversible_heun_s_general_22_f1_d2_a161aedeeb25 f0 f0_d1 f0_d2 f0_d3 f1 f1_d1 f1_d2 f1_d3 g00 g00_d1 g00_d2 g00_d3 g01 g01_d1 g01_d2 g01_d3 g10 g10_d1 g10_d2 g10_d3 g11 g11_d1 g11_d2 g11_d3 t0 t2 dt y0_0_0 y0_0_1 theta v_0_0 v_0_1 dW0_0_0 dW0_0_1 = a5
-  generalize Gen.grad_reversible_heun_s_general_22_f1_d3_711269134f9c f0 f0_d1 f0_d2 f0_d3 f1 f1_d1 f1_d2 f1_d3 g00 g00_d1 g00_d2 g00_d3 g01 g01_d1 g01_d2 g01_d3 g10 g10_d1 g10_d2 g10_d3 g11 g11_d1 g11_d2 g11_d3 t0 t2 dt y0_0_0 y0_0_1 theta v_0_0 v_0_1 dW0_0_0 dW0_0_1 = a6
-  generalize Gen.grad_reversible_heun_s_general_22_f1_d3_99b62b03a77a f0 f0_d1 f0_d2 f0_d3 f1 f1_d1 f1_d2 f1_d3 g00 g00_d1 g00_d2 g00_d3 g01 g01_d1 g01_d2 g01_d3 g10 g10_d1 g10_d2 g10_d3 g11 g11_d1 g11_d2 g11_d3 t0 t2 dt y0_0_0 y0_0_1 theta v_0_0 v_0_1 dW0_0_0 dW0_0_1 = a7
-  generalize Gen.grad_reversible_heun_s_general_22_g00_d1_d045b0262d93 f0 f0_d1 f0_d2 f0_d3 f1 f1_d1 f1_d2 f1_d3 g00 g00_d1 g00_d2 g00_d3 g01 g01_d1 g01_d2 g01_d3 g10 g10_d1 g10_d2 g10_d3 g11 g11_d1 g11_d2 g11_d3 t0 t2 dt y0_0_0 y0_0_1 theta v_0_0 v_0_1 dW0_0_0 dW0_0_1 = a8
-  generalize Gen.grad_reversible_heun_s_general_22_g00_d2_045eda3b0fd9 f0 f0_d1 f0_d2 f0_d3 f1 f1_d1 f1_d2 f1_d3 g00 g00_d1 g00_d2 g00_d3 g01 g01_d1 g01_d2 g01_d3 g10 g10_d1 g10_d2 g10_d3 g11 g11_d1 g11_d2 g11_d3 t0 t2 dt y0_0_0 y0_0_1 theta v_0_0 v_0_1 dW0_0_0 dW0_0_1 = a9
-  generalize Gen.grad_reversible_heun_s_general_22_g00_d3_3c9c1013bc30 f0 f0_d1 f0_d2 f0_d3 f1 f1_d1 f1_d2 f1_d3 g00 g00_d1 g00_d2 g00_d3 g01 g01_d1 g01_d2 g01_d3 g10 g10_d1 g10_d2 g10_d3 g11 g11_d1 g11_d2 g11_d3 t0 t2 dt y0_0_0 y0_0_1 theta v_0_0 v_0_1 dW0_0_0 dW0_0_1 = a10
-  generalize Gen.grad_reversible_heun_s_general_22_g00_d3_b94e31578305 f0 f0_d1 f0_d2 f0_d3 f1 f1_d1 f1_d2 f1_d3 g00 g00_d1 g00_d2 g00_d3 g01 g01_d1 g01_d2 g01_d3 g10 g10_d1 g10_d2 g10_d3 g11 g11_d1 g11_d2 g11_d3 t0 t2 dt y0_0_0 y0_0_1 theta v_0_0 v_0_1 dW0_0_0 dW0_0_1 = a11
-  generalize Gen.grad_reversible_heun_s_general_22_g01_d1_096aa254ca4c f0 f0_d1 f0_d2 f0_d3 f1 f1_d1 f1_d2 f1_d3 g00 g00_d1 g00_d2 g00_d3 g01 g01_d1 g01_d2 g01_d3 g10 g10_d1 g10_d2 g10_d3 g11 g11_d1 g11_d2 g11_d3 t0 t2 dt y0_0_0 y0_0_1 theta v_0_0 v_0_1 dW0_0_0 dW0_0_1 = a12
-  generalize Gen.grad_reversible_heun_s_general_22_g01_d2_605b9285dac6 f0 f0_d1 f0_d2 f0_d3 f1 f1_d1 f1_d2 f1_d3 g00 g00_d1 g00_d2 g00_d3 g01 g01_d1 g01_d2 g01_d3 g10 g10_d1 g10_d2 g10_d3 g11 g11_d1 g11_d2 g11_d3 t0 t2 dt y0_0_0 y0_0_1 theta v_0_0 v_0_1 dW0_0_0 dW0_0_1 = a13
-  generalize Gen.grad_reversible_heun_s_general_22_g01_d3_36b2116c1fe6 f0 f0_d1 f0_d2 f0_d3 f1 f1_d1 f1_d2 f1_d3 g00 g00_d1 g00_d2 g00_d3 g01 g01_d1 g01_d2 g01_d3 g10 g10_d1 g10_d2 g10_d3 g11 g11_d1 g11_d2 g11_d3 t0 t2 dt y0_0_0 y0_0_1 theta v_0_0 v_0_1 dW0_0_0 dW0_0_1 = a14
-  generalize Gen.grad_reversible_heun_s_general_22_g01_d3_c841a128504b f0 f0_d1 f0_d2 f0_d3 f1 f1_d1 f1_d2 f1_d3 g00 g00_d1 g00_d2 g00_d3 g01 g01_d1 g01_d2 g01_d3 g10 g10_d1 g10_d2 g10_d3 g11 g11_d1 g11_d2 g11_d3 t0 t2 dt y0_0_0 y0_0_1 theta v_0_0 v_0_1 dW0_0_0 dW0_0_1 = a15
-  generalize Gen.grad_reversible_heun_s_general_22_g10_d1_c8d1a7e0ae0b f0 f0_d1 f0_d2 f0_d3 f1 f1_d1 f1_d2 f1_d3 g00 g00_d1 g00_d2 g00_d3 g01 g01_d1 g01_d2 g01_d3 g10 g10_d1 g10_d2 g10_d3 g11 g11_d1 g11_d2 g11_d3 t0 t2 dt y0_0_0 y0_0_1 theta v_0_0 v_0_1 dW0_0_0 dW0_0_1 = a16
-  generalize Gen.grad_reversible_heun_s_general_22_g10_d2_5ebd58ddec5f f0 f0_d1 f0_d2 f0_d3 f1 f1_d1 f1_d2 f1_d3 g00 g00_d1 g00_d2 g00_d3 g01 g01_d1 g01_d2 g01_d3 g10 g10_d1 g10_d2 g10_d3 g11 g11_d1 g11_d2 g11_d3 t0 t2 dt y0_0_0 y0_0_1 theta v_0_0 v_0_1 dW0_0_0 dW0_0_1 = a17
-  generalize Gen.grad_reversible_heun_s_general_22_g10_d3_c04201fdc573 f0 f0_d1 f0_d2 f0_d3 f1 f1_d1 f1_d2 f1_d3 g00 g00_d1 g00_d2 g00_d3 g01 g01_d1 g01_d2 g01_d3 g10 g10_d1 g10_d2 g10_d3 g11 g11_d1 g11_d2 g11_d3 t0 t2 dt y0_0_0 y0_0_1 theta v_0_0 v_0_1 dW0_0_0 dW0_0_1 = a18
-  generalize Gen.grad_reversible_heun_s_general_22_g10_d3_f3c762927fb5 f0 f0_d1 f0_d2 f0_d3 f1 f1_d1 f1_d2 f1_d3 g00 g00_d1 g00_d2 g00_d3 g01 g01_d1 g01_d2 g01_d3 g10 g10_d1 g10_d2 g10_d3 g11 g11_d1 g11_d2 g11_d3 t0 t2 dt y0_0_0 y0_0_1 theta v_0_0 v_0_1 dW0_0_0 dW0_0_1 = a19
-  generalize Gen.grad_reversible_heun_s_general_22_g11_d1_29afddc1a6e5 f0 f0_d1 f0_d2 f0_d3 f1 f1_d1 f1_d2 f1_d3 g00 g00_d1 g00_d2 g00_d3 g01 g01_d1 g01_d2 g01_d3 g10 g10_d1 g10_d2 g10_d3 g11 g11_d1 g11_d2 g11_d3 t0 t2 dt y0_0_0 y0_0_1 theta v_0_0 v_0_1 dW0_0_0 dW0_0_1 = a20
-  generalize Gen.grad_reversible_heun_s_general_22_g11_d2_73b2ca98aa5f f0 f0_d1 f0_d2 f0_d3 f1 f1_d1 f1_d2 f1_d3 g00 g00_d1 g00_d2 g00_d3 g01 g01_d1 g01_d2 g01_d3 g10 g10_d1 g10_d2 g10_d3 g11 g11_d1 g11_d2 g11_d3 t0 t2 dt y0_0_0 y0_0_1 theta v_0_0 v_0_1 dW0_0_0 dW0_0_1 = a21
-  generalize Gen.grad_reversible_heun_s_general_22_g11_d3_a0a038d42b97 f0 f0_d1 f0_d2 f0_d3 f1 f1_d1 f1_d2 f1_d3 g00 g00_d1 g00_d2 g00_d3 g01 g01_d1 g01_d2 g01_d3 g10 g10_d1 g10_d2 g10_d3 g11 g11_d1 g11_d2 g11_d3 t0 t2 dt y0_0_0 y0_0_1 theta v_0_0 v_0_1 dW0_0_0 dW0_0_1 = a22
-  generalize Gen.grad_reversible_heun_s_general_22_g11_d3_a15e18a17a26 f0 f0_d1 f0_d2 f0_d3 f1 f1_d1 f1_d2 f1_d3 g00 g00_d1 g00_d2 g00_d3 g01 g01_d1 g01_d2 g01_d3 g10 g10_d1 g10_d2 g10_d3 g11 g11_d1 g11_d2 g11_d3 t0 t2 dt y0_0_0 y0_0_1 theta v_0_0 v_0_1 dW0_0_0 dW0_0_1 = a23
+/-- `grad_milstein_i_diagonal_22`: backprop `gy_0_0` = forward derivative `ty_0_0` -/
+theorem grad_milstein_i_diagonal_22_gy_0_0  (f0 : K → K → K → K → K) (f0_d1 : K → K → K → K → K) (f0_d2 : K → K → K → K → K) (f0_d3 : K → K → K → K → K) (f1 : K → K → K → K → K) (f1_d1 : K → K → K → K → K) (f1_d2 : K → K → K → K → K) (f1_d3 : K → K → K → K → K) (g0 : K → K → K → K) (g0_d1 : K → K → K → K) (g0_d11 : K → K → K → K) (g0_d12 : K → K → K → K) (g0_d2 : K → K → K → K) (g1 : K → K → K → K) (g1_d1 : K → K → K → K) (g1_d11 : K → K → K → K) (g1_d12 : K → K → K → K) (g1_d2 : K → K → K → K) (t0 t2 dt y0_0_0 y0_0_1 theta v_0_0 v_0_1 dW0_0_0 dW0_0_1 : K) :
+    Gen.grad_milstein_i_diagonal_22_gy_0_0 f0 f0_d1 f0_d2 f0_d3 f1 f1_d1 f1_d2 f1_d3 g0 g0_d1 g0_d11 g0_d12 g0_d2 g1 g1_d1 g1_d11 g1_d12 g1_d2 t0 t2 dt y0_0_0 y0_0_1 theta v_0_0 v_0_1 dW0_0_0 dW0_0_1 = Gen.grad_milstein_i_diagonal_22_ty_0_0 f0 f0_d1 f0_d2 f0_d3 f1 f1_d1 f1_d2 f1_d3 g0 g0_d1 g0_d11 g0_d12 g0_d2 g1 g1_d1 g1_d11 g1_d12 g1_d2 t0 t2 dt y0_0_0 y0_0_1 theta v_0_0 v_0_1 dW0_0_0 dW0_0_1 := by
+  simp only [Gen.grad_milstein_i_diagonal_22_gy_0_0, Gen.grad_milstein_i_diagonal_22_ty_0_0]
+  generalize Gen.grad_milstein_i_diagonal_22_f0_d1_7762e1f68fca f0 f0_d1 f0_d2 f0_d3 f1 f1_d1 f1_d2 f1_d3 g0 g0_d1 g0_d11 g0_d12 g0_d2 g1 g1_d1 g1_d11 g1_d12 g1_d2 t0 t2 dt y0_0_0 y0_0_1 theta v_0_0 v_0_1 dW0_0_0 dW0_0_1 = a0
+  generalize Gen.grad_milstein_i_diagonal_22_f1_d1_1deef72810c1 f0 f0_d1 f0_d2 f0_d3 f1 f1_d1 f1_d2 f1_d3 g0 g0_d1 g0_d11 g0_d12 g0_d2 g1 g1_d1 g1_d11 g1_d12 g1_d2 t0 t2 dt y0_0_0 y0_0_1 theta v_0_0 v_0_1 dW0_0_0 dW0_0_1 = a1
+  generalize Gen.grad_milstein_i_diagonal_22_g0_02ad866938a3 f0 f0_d1 f0_d2 f0_d3 f1 f1_d1 f1_d2 f1_d3 g0 g0_d1 g0_d11 g0_d12 g0_d2 g1 g1_d1 g1_d11 g1_d12 g1_d2 t0 t2 dt y0_0_0 y0_0_1 theta v_0_0 v_0_1 dW0_0_0 dW0_0_1 = a2
+  generalize Gen.grad_milstein_i_diagonal_22_g0_d11_260c9c52e725 f0 f0_d1 f0_d2 f0_d3 f1 f1_d1 f1_d2 f1_d3 g0 g0_d1 g0_d11 g0_d12 g0_d2 g1 g1_d1 g1_d11 g1_d12 g1_d2 t0 t2 dt y0_0_0 y0_0_1 theta v_0_0 v_0_1 dW0_0_0 dW0_0_1 = a3
+  generalize Gen.grad_milstein_i_diagonal_22_g0_d1_221dc0bfff9c f0 f0_d1 f0_d2 f0_d3 f1 f1_d1 f1_d2 f1_d3 g0 g0_d1 g0_d11 g0_d12 g0_d2 g1 g1_d1 g1_d11 g1_d12 g1_d2 t0 t2 dt y0_0_0 y0_0_1 theta v_0_0 v_0_1 dW0_0_0 dW0_0_1 = a4
+  ring
+
+set_option maxHeartbeats 4000000 in
+/-- `grad_milstein_i_diagonal_22`: backprop `gy_0_1` = forward derivative `ty_0_1` -/
+theorem grad_milstein_i_diagonal_22_gy_0_1  (f0 : K → K → K → K → K) (f0_d1 : K → K → K → K → K) (f0_d2 : K → K → K → K → K) (f0_d3 : K → K → K → K → K) (f1 : K → K → K → K → K) (f1_d1 : K → K → K → K → K) (f1_d2 : K → K → K → K → K) (f1_d3 : K → K → K → K → K) (g0 : K → K → K → K) (g0_d1 : K → K → K → K) (g0_d11 : K → K → K → K) (g0_d12 : K → K → K → K) (g0_d2 : K → K → K → K) (g1 : K → K → K → K) (g1_d1 : K → K → K → K) (g1_d11 : K → K → K → K) (g1_d12 : K → K → K → K) (g1_d2 : K → K → K → K) (t0 t2 dt y0_0_0 y0_0_1 theta v_0_0 v_0_1 dW0_0_0 dW0_0_1 : K) :
+    Gen.grad_milstein_i_diagonal_22_gy_0_1 f0 f0_d1 f0_d2 f0_d3 f1 f1_d1 f1_d2 f1_d3 g0 g0_d1 g0_d11 g0_d12 g0_d2 g1 g1_d1 g1_d11 g1_d12 g1_d2 t0 t2 dt y0_0_0 y0_0_1 theta v_0_0 v_0_1 dW0_0_0 dW0_0_1 = Gen.grad_milstein_i_diagonal_22_ty_0_1 f0 f0_d1 f0_d2 f0_d3 f1 f1_d1 f1_d2 f1_d3 g0 g0_d1 g0_d11 g0_d12 g0_d2 g1 g1_d1 g1_d11 g1_d12 g1_d2 t0 t2 dt y0_0_0 y0_0_1 theta v_0_0 v_0_1 dW0_0_0 dW0_0_1 := by
+  simp only [Gen.grad_milstein_i_diagonal_22_gy_0_1, Gen.grad_milstein_i_diagonal_22_ty_0_1]
+  generalize Gen.grad_milstein_i_diagonal_22_f0_d2_c08f7f271659 f0 f0_d1 f0_d2 f0_d3 f1 f1_d1 f1_d2 f1_d3 g0 g0_d1 g0_d11 g0_d12 g0_d2 g1 g1_d1 g1_d11 g1_d12 g1_d2 t0 t2 dt y0_0_0 y0_0_1 theta v_0_0 v_0_1 dW0_0_0 dW0_0_1 = a0
+  generalize Gen.grad_milstein_i_diagonal_22_f1_d2_0cc4972e78ba f0 f0_d1 f0_d2 f0_d3 f1 f1_d1 f1_d2 f1_d3 g0 g0_d1 g0_d11 g0_d12 g0_d2 g1 g1_d1 g1_d11 g1_d12 g1_d2 t0 t2 dt y0_0_0 y0_0_1 theta v_0_0 v_0_1 dW0_0_0 dW0_0_1 = a1
+  generalize Gen.grad_milstein_i_diagonal_22_g1_77f4360c494c f0 f0_d1 f0_d2 f0_d3 f1 f1_d1 f1_d2 f1_d3 g0 g0_d1 g0_d11 g0_d12 g0_d2 g1 g1_d1 g1_d11 g1_d12 g1_d2 t0 t2 dt y0_0_0 y0_0_1 theta v_0_0 v_0_1 dW0_0_0 dW0_0_1 = a2
+  generalize Gen.grad_milstein_i_diagonal_22_g1_d11_d5af88a659ba f0 f0_d1 f0_d2 f0_d3 f1 f1_d1 f1_d2 f1_d3 g0 g0_d1 g0_d11 g0_d12 g0_d2 g1 g1_d1 g1_d11 g1_d12 g1_d2 t0 t2 dt y0_0_0 y0_0_1 theta v_0_0 v_0_1 dW0_0_0 dW0_0_1 = a3
+  generalize Gen.grad_milstein_i_diagonal_22_g1_d1_236c79beb279 f0 f0_d1 f0_d2 f0_d3 f1 f1_d1 f1_d2 f1_d3 g0 g0_d1 g0_d11 g0_d12 g0_d2 g1 g1_d1 g1_d11 g1_d12 g1_d2 t0 t2 dt y0_0_0 y0_0_1 theta v_0_0 v_0_1 dW0_0_0 dW0_0_1 = a4
   ring
 
 end C08
